@@ -1,8 +1,2149 @@
-(* IO/AsciiProofs.v -- proofs about the OVM-ASCII models (AsciiStream.v, AsciiReaderModel.v, AsciiWriterModel.v). *)
-From Coq Require Import ZArith Lia List Bool.
+(* IO/AsciiProofs.v -- proofs about the OVM-ASCII models (AsciiStream.v, AsciiReaderModel.v, AsciiWriterModel.v).
+   Part 1: every extraction only consumes (the remaining input never grows), getline on a stream that stays good
+           consumes at least one character; getCleanLine and the property loop never run out of fuel.
+   Part 2: C07 totality: read_ascii is never RSpin / RUB when every allocatable count fits an int handle.
+   Part 3: C07 validity: a successful read leaves every stored handle in range and every property sized.
+   Part 4: C06: number printing/parsing, line level round trip. *)
+From Coq Require Import ZArith Lia List Bool String Ascii.
+From OVM Require Import Kernel.Ops Kernel.Construct Mesh.HexModel.
 From OVM Require Import IO.AsciiStream IO.AsciiReaderModel IO.AsciiWriterModel.
 Import ListNotations.
 Local Open Scope Z_scope.
 
+(* ================================================================== Part 1: consumption *)
+
+Definition len (s : istream) : nat := length (rest s).
+
 Lemma skipws_length l : (length (skipws l) <= length l)%nat.
 Proof. induction l; simpl; auto. destruct (isspace a); simpl; lia. Qed.
+
+Lemma good_mk r e f : good (mk r e f) = negb e && negb f.
+Proof. reflexivity. Qed.
+
+Lemma sentry_le b s s' ok : sentry b s = (s', ok) -> (len s' <= len s)%nat.
+Proof.
+  unfold sentry, len. destruct (good s).
+  - destruct b.
+    + pose proof (skipws_length (rest s)) as K. destruct (skipws (rest s)) eqn:E; intros H; inversion H; subst; simpl in *; lia.
+    + intros H; inversion H; subst; lia.
+  - intros H; inversion H; subst; simpl; lia.
+Qed.
+
+Lemma sentry_ok_good b s s' : sentry b s = (s', true) -> good s' = true.
+Proof.
+  unfold sentry. destruct (good s) eqn:G.
+  - destruct b.
+    + destruct (skipws (rest s)); intros H; inversion H; subst; reflexivity.
+    + intros H; inversion H; subst; auto.
+  - intros H; inversion H.
+Qed.
+
+Lemma sentry_fail_notgood b s s' : sentry b s = (s', false) -> good s' = false.
+Proof.
+  unfold sentry. destruct (good s) eqn:G.
+  - destruct b.
+    + destruct (skipws (rest s)); intros H; inversion H; subst; reflexivity.
+    + intros H; inversion H.
+  - intros H; inversion H; subst. unfold good, set_fail; simpl. apply andb_false_r.
+Qed.
+
+Lemma zeros_loop_le l : forall f f' r, zeros_loop l f = (f', r) -> (length r <= length l)%nat.
+Proof.
+  induction l; simpl; intros f f' r H.
+  - inversion H; simpl; lia.
+  - destruct (a =? c_zero).
+    + apply IHl in H. lia.
+    + inversion H; simpl; lia.
+Qed.
+
+Lemma digits_loop_le mx sm md l : forall res ovf any r' o' a' l',
+  digits_loop mx sm md l res ovf any = (r', o', a', l') -> (length l' <= length l)%nat.
+Proof.
+  induction l; simpl; intros res ovf any r' o' a' l' H.
+  - inversion H; simpl; lia.
+  - destruct (is_digit a).
+    + destruct (res >? sm); apply IHl in H; lia.
+    + inversion H; simpl; lia.
+Qed.
+
+Lemma extract_int_le w sg l v f r : extract_int w sg l = (v, f, r) -> (length r <= length l)%nat.
+Proof.
+  unfold extract_int.
+  set (x := match l with
+            | [] => (false, [])
+            | c :: t => if c =? c_minus then (true, t) else if c =? c_plus then (false, t) else (false, l)
+            end).
+  assert (Hx : (length (snd x) <= length l)%nat).
+  { unfold x. destruct l as [|c t]; simpl; auto. destruct (c =? c_minus); simpl; [lia|]. destruct (c =? c_plus); simpl; lia. }
+  destruct x as [neg l1]. simpl in Hx.
+  destruct (zeros_loop l1 false) as [fz l2] eqn:Z. apply zeros_loop_le in Z.
+  match goal with |- context [digits_loop ?a ?b ?c ?d ?e ?f ?g] => destruct (digits_loop a b c d e f g) as [[[res ovf] any] l3] eqn:D end.
+  apply digits_loop_le in D.
+  destruct (negb any && negb fz); [intros H; inversion H; subst; lia|].
+  destruct ovf; intros H; inversion H; subst; lia.
+Qed.
+
+Lemma clamp_le lo hi x v f r : clamp lo hi x = (v, f, r) -> r = snd x.
+Proof. unfold clamp. destruct x as [[v0 f0] l0]. destruct (v0 <? lo); [|destruct (v0 >? hi)]; intros H; inversion H; reflexivity. Qed.
+
+Lemma parse_num_le t l v f r : parse_num t l = (v, f, r) -> (length r <= length l)%nat.
+Proof.
+  destruct t; simpl; intros H.
+  - eapply extract_int_le; eauto.
+  - eapply extract_int_le; eauto.
+  - eapply extract_int_le; eauto.
+  - destruct (extract_int 64 true l) as [[v0 f0] l0] eqn:E. apply clamp_le in H. simpl in H. subst. eapply extract_int_le; eauto.
+  - destruct (extract_int 64 true l) as [[v0 f0] l0] eqn:E. apply clamp_le in H. simpl in H. subst. eapply extract_int_le; eauto.
+  - destruct (extract_int 64 true l) as [[v0 f0] l0] eqn:E. apply extract_int_le in E.
+    destruct ((v0 =? 0) || (v0 =? 1)); inversion H; subst; auto.
+Qed.
+
+Lemma get_num_le t s s' v : get_num t s = (s', v) -> (len s' <= len s)%nat.
+Proof.
+  unfold get_num. destruct (sentry true s) as [s1 ok] eqn:S. pose proof (sentry_le _ _ _ _ S) as L.
+  destruct ok.
+  - destruct (parse_num t (rest s1)) as [[v0 f] l] eqn:P. apply parse_num_le in P.
+    intros H; inversion H; subst. unfold len in *; simpl; lia.
+  - intros H; inversion H; subst; auto.
+Qed.
+
+Lemma get_char_le s s' v : get_char s = (s', v) -> (len s' <= len s)%nat.
+Proof.
+  unfold get_char. destruct (sentry true s) as [s1 ok] eqn:S. pose proof (sentry_le _ _ _ _ S) as L.
+  destruct ok.
+  - destruct (rest s1) eqn:R; intros H; inversion H; subst; unfold len in *; simpl; rewrite ?R in L; simpl in L; lia.
+  - intros H; inversion H; subst; auto.
+Qed.
+
+Lemma take_word_le l w r : take_word l = (w, r) -> (length r <= length l)%nat.
+Proof.
+  revert w r. induction l; simpl; intros w r H.
+  - inversion H; simpl; lia.
+  - destruct (isspace a).
+    + inversion H; simpl; lia.
+    + destruct (take_word l) as [w0 r0]. inversion H; subst. specialize (IHl _ _ eq_refl). lia.
+Qed.
+
+Lemma get_word_le s s' v : get_word s = (s', v) -> (len s' <= len s)%nat.
+Proof.
+  unfold get_word. destruct (sentry true s) as [s1 ok] eqn:S. pose proof (sentry_le _ _ _ _ S) as L.
+  destruct ok.
+  - destruct (take_word (rest s1)) as [w r] eqn:T. apply take_word_le in T.
+    intros H; inversion H; subst. unfold len in *; simpl; lia.
+  - intros H; inversion H; subst; auto.
+Qed.
+
+Lemma take_line_some l w r : take_line l = (w, Some r) -> (length r < length l)%nat.
+Proof.
+  revert w r. induction l; simpl; intros w r H.
+  - inversion H.
+  - destruct (a =? c_nl).
+    + inversion H; subst; lia.
+    + destruct (take_line l) as [w0 [r0|]]; inversion H; subst. specialize (IHl _ _ eq_refl). lia.
+Qed.
+
+Lemma getline_le s s' v : getline s = (s', v) -> (len s' <= len s)%nat.
+Proof.
+  unfold getline. destruct (sentry false s) as [s1 ok] eqn:S. pose proof (sentry_le _ _ _ _ S) as L.
+  destruct ok.
+  - destruct (take_line (rest s1)) as [w [r|]] eqn:T.
+    + apply take_line_some in T. intros H; inversion H; subst. unfold len in *; simpl; lia.
+    + intros H; inversion H; subst. unfold len; simpl; lia.
+  - intros H; inversion H; subst; auto.
+Qed.
+
+(* getline that leaves the stream good() consumed the delimiter *)
+Lemma getline_good_lt s s' v : getline s = (s', v) -> good s' = true -> (len s' < len s)%nat.
+Proof.
+  unfold getline. destruct (sentry false s) as [s1 ok] eqn:S. pose proof (sentry_le _ _ _ _ S) as L.
+  destruct ok.
+  - destruct (take_line (rest s1)) as [w [r|]] eqn:T.
+    + apply take_line_some in T. intros H _; inversion H; subst. unfold len in *; simpl; lia.
+    + intros H G; inversion H; subst. discriminate G.
+  - intros H G; inversion H; subst. apply sentry_fail_notgood in S. congruence.
+Qed.
+
+Lemma read_n_le n s s' v : read_n n s = (s', v) -> (len s' <= len s)%nat.
+Proof.
+  unfold read_n. destruct (sentry false s) as [s1 ok] eqn:S. pose proof (sentry_le _ _ _ _ S) as L.
+  destruct ok.
+  - pose proof (skipn_length n (rest s1)) as K.
+    destruct (length (firstn n (rest s1)) =? n)%nat; intros H; inversion H; subst; unfold len in *; simpl; lia.
+  - intros H; inversion H; subst; auto.
+Qed.
+
+Lemma float_loop_le l : forall acc m d sc a r, float_loop l acc m d sc = (a, r) -> (length r <= length l)%nat.
+Proof.
+  induction l as [l IH] using (well_founded_induction (Wf_nat.well_founded_ltof _ (@length byte))).
+  intros acc m d sc a r. destruct l as [|c t]; simpl.
+  - intros H; inversion H; simpl; lia.
+  - destruct (is_digit c).
+    + intros H. apply IH in H; [simpl; lia | unfold Wf_nat.ltof; simpl; lia].
+    + destruct ((c =? c_dot) && negb d && negb sc).
+      * intros H. apply IH in H; [simpl; lia | unfold Wf_nat.ltof; simpl; lia].
+      * destruct (((c =? c_e) || (c =? c_E)) && negb sc && m).
+        -- destruct t as [|c2 t2].
+           ++ intros H; inversion H; simpl; lia.
+           ++ destruct ((c2 =? c_plus) || (c2 =? c_minus)); intros H; apply IH in H; simpl in *; try lia;
+                unfold Wf_nat.ltof; simpl; lia.
+        -- intros H; inversion H; simpl; lia.
+Qed.
+
+Lemma fzeros_loop_le l : forall f f' r, fzeros_loop l f = (f', r) -> (length r <= length l)%nat.
+Proof.
+  induction l; simpl; intros f f' r H.
+  - inversion H; simpl; lia.
+  - destruct (a =? c_zero).
+    + apply IHl in H. lia.
+    + inversion H; simpl; lia.
+Qed.
+
+Lemma float_scan_le l x r : float_scan l = (x, r) -> (length r <= length l)%nat.
+Proof.
+  unfold float_scan.
+  set (y := match l with
+            | [] => ([], [])
+            | c :: t => if (c =? c_plus) || (c =? c_minus) then ([c], t) else ([], l)
+            end).
+  assert (Hy : (length (snd y) <= length l)%nat).
+  { unfold y. destruct l as [|c t]; simpl; auto. destruct ((c =? c_plus) || (c =? c_minus)); simpl; lia. }
+  destruct y as [acc0 l1]. simpl in Hy.
+  destruct (fzeros_loop l1 false) as [fz l2] eqn:Z. apply fzeros_loop_le in Z.
+  match goal with |- context [float_loop ?a ?b ?c ?d ?e] => destruct (float_loop a b c d e) as [acc l3] eqn:F end.
+  apply float_loop_le in F. intros H; inversion H; subst; lia.
+Qed.
+
+Lemma get_float_le conv s s' v : get_float conv s = (s', v) -> (len s' <= len s)%nat.
+Proof.
+  unfold get_float, parse_float. destruct (sentry true s) as [s1 ok] eqn:S. pose proof (sentry_le _ _ _ _ S) as L.
+  destruct ok.
+  - destruct (float_scan (rest s1)) as [x r] eqn:F. apply float_scan_le in F.
+    destruct (conv x) as [v0 f]. intros H; inversion H; subst. unfold len in *; simpl; lia.
+  - intros H; inversion H; subst; auto.
+Qed.
+
+(* ------------------------------------------------------------------ getCleanLine never runs out of fuel *)
+
+Lemma gcl_total : forall fuel s line, (len s < fuel)%nat ->
+  exists s' l b, get_clean_line fuel s line = Some (s', l, b) /\ (len s' <= len s)%nat /\ (good s' = true -> (len s' < len s)%nat).
+Proof.
+  induction fuel; intros s line H; [lia|].
+  simpl. destruct (getline s) as [s1 r] eqn:G.
+  pose proof (getline_le _ _ _ G) as L. pose proof (getline_good_lt _ _ _ G) as L2.
+  set (l1 := trim match r with Some l => l | None => line end).
+  destruct (match l1 with [] => false | c :: _ => negb (c =? 35) end).
+  - exists s1, l1, true. auto.
+  - destruct (good s1) eqn:GS; simpl.
+    + specialize (L2 eq_refl). destruct (IHfuel s1 l1) as (s' & l & b & E & A & B); [lia|].
+      exists s', l, b. split; auto. split; [lia|]. intros X. specialize (B X). lia.
+    + exists s1, l1, false. split; auto. split; auto. intros X; congruence.
+Qed.
+
+Lemma gcl_fuel_ok s : (len s < gcl_fuel s)%nat.
+Proof. unfold gcl_fuel, len. lia. Qed.
+
+(* ------------------------------------------------------------------ monotone: only consumes, never becomes good again *)
+
+Definition mono (s s' : istream) : Prop := (len s' <= len s)%nat /\ (good s = false -> good s' = false).
+
+Lemma mono_refl s : mono s s.
+Proof. split; auto. Qed.
+Lemma mono_trans a b c : mono a b -> mono b c -> mono a c.
+Proof. intros [A1 A2] [B1 B2]. split; [lia|auto]. Qed.
+
+Lemma good_set_fail s : good (set_fail s) = false.
+Proof. unfold good, set_fail; simpl. apply andb_false_r. Qed.
+Lemma len_set_fail s : len (set_fail s) = len s.
+Proof. reflexivity. Qed.
+Lemma mono_set_fail s : mono s (set_fail s).
+Proof. split; [rewrite len_set_fail; lia | intros; apply good_set_fail]. Qed.
+
+Lemma sentry_bad b s : good s = false -> sentry b s = (set_fail s, false).
+Proof. unfold sentry. intros ->. reflexivity. Qed.
+
+Lemma get_num_mono t s s' v : get_num t s = (s', v) -> mono s s'.
+Proof.
+  intros H. split; [eapply get_num_le; eauto|]. intros G. unfold get_num in H. rewrite (sentry_bad _ _ G) in H.
+  inversion H; subst. apply good_set_fail.
+Qed.
+Lemma get_char_mono s s' v : get_char s = (s', v) -> mono s s'.
+Proof.
+  intros H. split; [eapply get_char_le; eauto|]. intros G. unfold get_char in H. rewrite (sentry_bad _ _ G) in H.
+  inversion H; subst. apply good_set_fail.
+Qed.
+Lemma get_word_mono s s' v : get_word s = (s', v) -> mono s s'.
+Proof.
+  intros H. split; [eapply get_word_le; eauto|]. intros G. unfold get_word in H. rewrite (sentry_bad _ _ G) in H.
+  inversion H; subst. apply good_set_fail.
+Qed.
+Lemma get_float_mono c s s' v : get_float c s = (s', v) -> mono s s'.
+Proof.
+  intros H. split; [eapply get_float_le; eauto|]. intros G. unfold get_float in H. rewrite (sentry_bad _ _ G) in H.
+  inversion H; subst. apply good_set_fail.
+Qed.
+Lemma read_n_mono n s s' v : read_n n s = (s', v) -> mono s s'.
+Proof.
+  intros H. split; [eapply read_n_le; eauto|]. intros G. unfold read_n in H. rewrite (sentry_bad _ _ G) in H.
+  inversion H; subst. apply good_set_fail.
+Qed.
+Lemma getline_mono s s' v : getline s = (s', v) -> mono s s'.
+Proof.
+  intros H. split; [eapply getline_le; eauto|]. intros G. unfold getline in H. rewrite (sentry_bad _ _ G) in H.
+  inversion H; subst. apply good_set_fail.
+Qed.
+
+(* ================================================================== Part 2: totality *)
+
+Definition safe (o : outcome) : Prop := match o with RSpin | RUB _ => False | _ => True end.
+(* what a sub-step may stop with: `return false` or an allocation exception *)
+Definition stopok (st : stop) : Prop := match st with SFalse _ | SExn _ => True | _ => False end.
+Lemma stopok_safe st : stopok st -> safe (out_of_stop st).
+Proof. destruct st; simpl; auto. Qed.
+Lemma stop_not_true st f : out_of_stop st <> RTrue f.
+Proof. destruct st; discriminate. Qed.
+Definition safe_res {A} (r : res A) : Prop := match r with Stop o => stopok o | Go _ => True end.
+
+Lemma alloc_safe o n e out : alloc o n e = Stop out -> stopok out.
+Proof. unfold alloc. destruct (n >? ptrdiff_max / e); [|destruct (n * e >? o_alloc o)]; intros H; inversion H; exact I. Qed.
+
+Lemma alloc_go o n e u : alloc o n e = Go u -> n * e <= o_alloc o.
+Proof. unfold alloc. destruct (n >? ptrdiff_max / e); [discriminate|]. destruct (n * e >? o_alloc o) eqn:E; [discriminate|]. lia. Qed.
+
+Section Safety.
+  Variable conv_d : list byte -> Z * bool.
+  Variable conv_f : list byte -> Z * bool.
+
+  Lemma deser_scalar_mono sc s old s' v : deser_scalar conv_d conv_f sc s old = (s', v) -> mono s s'.
+  Proof.
+    destruct sc; simpl.
+    - destruct (get_float conv_f s) eqn:E. intros H; inversion H; subst. eapply get_float_mono; eauto.
+    - destruct (get_float conv_d s) eqn:E. intros H; inversion H; subst. eapply get_float_mono; eauto.
+    - destruct (get_num NI32 s) eqn:E. intros H; inversion H; subst. eapply get_num_mono; eauto.
+    - destruct (get_num NU32 s) eqn:E. intros H; inversion H; subst. eapply get_num_mono; eauto.
+  Qed.
+
+  Lemma deser_vec_mono sc olds : forall s s' vs, deser_vec conv_d conv_f sc olds s = (s', vs) -> mono s s'.
+  Proof.
+    induction olds; simpl; intros s s' vs H.
+    - inversion H; subst. apply mono_refl.
+    - destruct (deser_scalar conv_d conv_f sc s a) as [s1 v] eqn:E1.
+      destruct (deser_vec conv_d conv_f sc olds s1) as [s2 vs2] eqn:E2. inversion H; subst.
+      eapply mono_trans; [eapply deser_scalar_mono; eauto | eapply IHolds; eauto].
+  Qed.
+
+  Lemma deser_elems_mono (f : istream -> aval -> istream * aval) :
+    (forall s o s' v, f s o = (s', v) -> mono s s') ->
+    forall olds s s' vs, deser_elems f olds s = (s', vs) -> mono s s'.
+  Proof.
+    intros Hf. induction olds; simpl; intros s s' vs H.
+    - inversion H; subst. apply mono_refl.
+    - destruct (f s a) as [s1 v] eqn:E1. destruct (deser_elems f olds s1) as [s2 vs2] eqn:E2. inversion H; subst.
+      eapply mono_trans; [eapply Hf; eauto | eapply IHolds; eauto].
+  Qed.
+
+  Lemma deser_handle_mono s o s' v : deser_handle s o = (s', v) -> mono s s'.
+  Proof. unfold deser_handle. destruct (get_num NI32 s) eqn:E. intros H; inversion H; subst. eapply get_num_mono; eauto. Qed.
+  Lemma deser_double_mono s o s' v : deser_double conv_d s o = (s', v) -> mono s s'.
+  Proof. unfold deser_double. destruct (get_float conv_d s) eqn:E. intros H; inversion H; subst. eapply get_float_mono; eauto. Qed.
+
+  Lemma read_size_mono s s' n : read_size s = (s', n) -> mono s s'.
+  Proof. unfold read_size. destruct (get_num NU64 s) eqn:E. intros H; inversion H; subst. eapply get_num_mono; eauto. Qed.
+
+  Lemma deser_vector_ok o esz d f s old :
+    (forall s o s' v, f s o = (s', v) -> mono s s') ->
+    match deser_vector o esz d f s old with DOk s' _ => mono s s' | DStop out => stopok out end.
+  Proof.
+    intros Hf. unfold deser_vector. destruct (read_size s) as [s1 n] eqn:R. apply read_size_mono in R.
+    destruct (alloc o n esz) eqn:A.
+    - destruct (deser_elems f (resize_vals n d (old_list old)) s1) as [s2 vs] eqn:E.
+      eapply mono_trans; [eauto | eapply deser_elems_mono; eauto].
+    - eapply alloc_safe; eauto.
+  Qed.
+
+  Lemma deser_vecvec_ok o olds : forall s,
+    match deser_vecvec o olds s with inl (s', _) => mono s s' | inr out => stopok out end.
+  Proof.
+    induction olds; simpl; intros s.
+    - apply mono_refl.
+    - pose proof (deser_vector_ok o 4 (VInt (-1)) deser_handle s a deser_handle_mono) as V.
+      destruct (deser_vector o 4 (VInt (-1)) deser_handle s a) as [s1 v|out]; auto.
+      specialize (IHolds s1). destruct (deser_vecvec o olds s1) as [[s2 vs]|out]; auto.
+      eapply mono_trans; eauto.
+  Qed.
+
+  Lemma deser_map_loop_mono n : forall s acc s' l, deser_map_loop n s acc = (s', l) -> mono s s'.
+  Proof.
+    induction n; simpl; intros s acc s' l H.
+    - inversion H; subst. apply mono_refl.
+    - destruct (get_num NI32 s) as [s1 kv] eqn:E1. destruct (get_num NI32 s1) as [s2 vv] eqn:E2.
+      apply get_num_mono in E1. apply get_num_mono in E2.
+      destruct (failb s2).
+      + inversion H; subst. eapply mono_trans; eauto.
+      + apply IHn in H. eapply mono_trans; [|eauto]. eapply mono_trans; eauto.
+  Qed.
+
+  Lemma deser_string_ok o s old :
+    match deser_string o s old with DOk s' _ => mono s s' | DStop out => stopok out end.
+  Proof.
+    unfold deser_string. destruct (get_num NU64 s) as [s1 ln] eqn:E1. destruct (get_char s1) as [s2 c] eqn:E2.
+    apply get_num_mono in E1. apply get_char_mono in E2.
+    assert (M : mono s s2) by (eapply mono_trans; eauto).
+    destruct ln as [n|]; auto.
+    destruct (negb (failb s2) && negb (n =? 0)); auto.
+    destruct (alloc o n 1) eqn:A.
+    - destruct (read_n (Z.to_nat n) s2) as [s3 got] eqn:R. apply read_n_mono in R. eapply mono_trans; eauto.
+    - eapply alloc_safe; eauto.
+  Qed.
+
+  Lemma deser_ok o t s old :
+    match deser conv_d conv_f o t s old with DOk s' _ => mono s s' | DStop out => stopok out end.
+  Proof.
+    destruct t; simpl.
+    - destruct (get_num NI32 s) eqn:E; eapply get_num_mono; eauto.
+    - destruct (get_num NU32 s) eqn:E; eapply get_num_mono; eauto.
+    - destruct (get_num NI16 s) eqn:E; eapply get_num_mono; eauto.
+    - destruct (get_num NI64 s) eqn:E; eapply get_num_mono; eauto.
+    - destruct (get_num NU64 s) eqn:E; eapply get_num_mono; eauto.
+    - destruct (get_char s) eqn:E; eapply get_char_mono; eauto.
+    - destruct (get_char s) eqn:E; eapply get_char_mono; eauto.
+    - destruct (get_num NBool s) eqn:E; eapply get_num_mono; eauto.
+    - destruct (get_float conv_f s) eqn:E; eapply get_float_mono; eauto.
+    - destruct (get_float conv_d s) eqn:E; eapply get_float_mono; eauto.
+    - apply deser_string_ok.
+    - destruct (read_size s) as [s1 n] eqn:R. apply read_size_mono in R.
+      destruct (deser_map_loop (map_iters n s1) s1 []) as [s2 l] eqn:M. apply deser_map_loop_mono in M.
+      eapply mono_trans; eauto.
+    - apply deser_vector_ok. apply deser_double_mono.
+    - apply deser_vector_ok. apply deser_handle_mono.
+    - apply deser_vector_ok. apply deser_handle_mono.
+    - destruct (read_size s) as [s1 n0] eqn:R. apply read_size_mono in R.
+      destruct (alloc o n0 24) eqn:A; [|eapply alloc_safe; eauto].
+      pose proof (deser_vecvec_ok o (resize_vals n0 (VList []) (old_list old)) s1) as V.
+      destruct (deser_vecvec o (resize_vals n0 (VList []) (old_list old)) s1) as [[s2 vs]|out]; auto.
+      eapply mono_trans; eauto.
+    - match goal with |- context [deser_vec ?a ?b ?c ?d ?e] => destruct (deser_vec a b c d e) as [s1 vs] eqn:E end.
+      eapply deser_vec_mono; eauto.
+  Qed.
+
+  Lemma deser_all_ok o t olds : forall s,
+    match deser_all conv_d conv_f o t olds s with inl (s', _) => mono s s' | inr out => stopok out end.
+  Proof.
+    induction olds; simpl; intros s.
+    - apply mono_refl.
+    - pose proof (deser_ok o t s a) as D. destruct (deser conv_d conv_f o t s a) as [s1 v|out]; auto.
+      specialize (IHolds s1). destruct (deser_all conv_d conv_f o t olds s1) as [[s2 vs]|out]; auto.
+      eapply mono_trans; eauto.
+  Qed.
+
+  Lemma generate_property_ok o m k name t s props :
+    match generate_property conv_d conv_f o m k name t s props with Go (s', _) => mono s s' | Stop out => stopok out end.
+  Proof.
+    unfold generate_property. destruct name as [|c nm].
+    - apply mono_set_fail.
+    - destruct (find_prop k (c :: nm) t props 0) as [[i p]|].
+      + pose proof (deser_all_ok o t (p_vals p) s) as D.
+        destruct (deser_all conv_d conv_f o t (p_vals p) s) as [[s1 vs]|out]; auto.
+      + pose proof (deser_all_ok o t (repeat (default_val t) (count k m)) s) as D.
+        destruct (deser_all conv_d conv_f o t (repeat (default_val t) (count k m)) s) as [[s1 vs]|out]; auto.
+  Qed.
+
+  (* one readProperty on a good stream: either stops safely or returns a stream that is not good or strictly shorter *)
+  Lemma read_property_ok o m s props :
+    match read_property conv_d conv_f o m s props with
+    | Go (s', _) => (len s' <= len s)%nat /\ (good s' = true -> (len s' < len s)%nat)
+    | Stop out => stopok out
+    end.
+  Proof.
+    unfold read_property.
+    destruct (gcl_total (gcl_fuel s) s [] (gcl_fuel_ok s)) as (s1 & line & b & E & L1 & L2). rewrite E.
+    destruct line as [|c l]; [auto|].
+    destruct (get_word (sstr_of (c :: l))) as [ss1 w1]. destruct (get_word ss1) as [ss2 w2].
+    destruct (type_of_name _) as [t|]; [|auto].
+    destruct (extract_quoted (c :: l)) as [|c0 nm] eqn:Q.
+    - split; [rewrite len_set_fail; auto|]. rewrite good_set_fail. discriminate.
+    - destruct (kind_of_name _) as [k|]; [|auto].
+      pose proof (generate_property_ok o m k (c0 :: nm) t s1 props) as G.
+      destruct (generate_property conv_d conv_f o m k (c0 :: nm) t s1 props) as [[s2 p2]|out]; auto.
+      destruct G as [G1 G2]. split; [lia|]. intros X.
+      destruct (good s1) eqn:GS; [specialize (L2 eq_refl); lia|]. rewrite (G2 eq_refl) in X. discriminate.
+  Qed.
+
+  Lemma prop_loop_bad fuel o m s props : good s = false -> prop_loop conv_d conv_f fuel o m s props = Go (s, props).
+  Proof. intros G. destruct fuel; simpl; rewrite G; reflexivity. Qed.
+
+  Lemma prop_loop_safe : forall fuel o m s props, (len s < fuel)%nat -> safe_res (prop_loop conv_d conv_f fuel o m s props).
+  Proof.
+    induction fuel; intros o m s props H; [lia|].
+    simpl. destruct (good s) eqn:G; [|exact I].
+    pose proof (read_property_ok o m s props) as R.
+    destruct (read_property conv_d conv_f o m s props) as [[s1 p1]|out]; simpl; auto.
+    destruct R as [R1 R2]. destruct (good s1) eqn:G1.
+    - apply IHfuel. specialize (R2 eq_refl). lia.
+    - rewrite prop_loop_bad; auto. exact I.
+  Qed.
+End Safety.
+
+(* ------------------------------------------------------------------ unsigned extraction is never negative *)
+
+Lemma digits_loop_nonneg mx sm md l : 0 < md -> forall res ovf any r' o' a' l',
+  0 <= res -> digits_loop mx sm md l res ovf any = (r', o', a', l') -> 0 <= r'.
+Proof.
+  intros Hmd. induction l; simpl; intros res ovf any r' o' a' l' Hr H.
+  - inversion H; subst; auto.
+  - destruct (is_digit a).
+    + destruct (res >? sm).
+      * eapply IHl; eauto.
+      * eapply IHl; [|eauto]. apply Z.mod_pos_bound; auto.
+    + inversion H; subst; auto.
+Qed.
+
+Lemma pow2_pos w : 0 <= w -> 0 < pow2 w.
+Proof. intros. unfold pow2. apply Z.pow_pos_nonneg; lia. Qed.
+
+Lemma extract_int_unsigned_nonneg w l v f r : 0 < w -> extract_int w false l = (v, f, r) -> 0 <= v.
+Proof.
+  intros Hw. unfold extract_int.
+  destruct (match l with
+            | [] => (false, [])
+            | c :: t => if c =? c_minus then (true, t) else if c =? c_plus then (false, t) else (false, l)
+            end) as [neg l1].
+  destruct (zeros_loop l1 false) as [fz l2].
+  match goal with |- context [digits_loop ?a ?b ?c ?d ?e ?f ?g] => destruct (digits_loop a b c d e f g) as [[[res ovf] any] l3] eqn:D end.
+  assert (P : 0 < pow2 w) by (apply pow2_pos; lia).
+  apply digits_loop_nonneg in D; [|auto|lia].
+  destruct (negb any && negb fz); [intros H; inversion H; lia|].
+  rewrite andb_false_r. destruct ovf.
+  - intros H; inversion H; subst. lia.
+  - destruct neg; intros H; inversion H; subst; auto. apply Z.mod_pos_bound; auto.
+Qed.
+
+Lemma get_num_u64_nonneg s s' v : get_num NU64 s = (s', Some v) -> 0 <= v.
+Proof.
+  unfold get_num. destruct (sentry true s) as [s1 ok]. destruct ok; [|discriminate].
+  destruct (parse_num NU64 (rest s1)) as [[v0 f] l] eqn:P. simpl in P. apply extract_int_unsigned_nonneg in P; [|lia].
+  intros H; inversion H; subst; auto.
+Qed.
+
+Lemma get_num_u32_nonneg s s' v : get_num NU32 s = (s', Some v) -> 0 <= v.
+Proof.
+  unfold get_num. destruct (sentry true s) as [s1 ok]. destruct ok; [|discriminate].
+  destruct (parse_num NU32 (rest s1)) as [[v0 f] l] eqn:P. simpl in P. apply extract_int_unsigned_nonneg in P; [|lia].
+  intros H; inversion H; subst; auto.
+Qed.
+
+(* ------------------------------------------------------------------ the entity sections *)
+
+Section Safety2.
+  Variable conv_d : list byte -> Z * bool.
+  Variable conv_f : list byte -> Z * bool.
+
+  Lemma gcl_go d : exists d', gcl d = Go d' /\ d_m d' = d_m d /\ d_pos d' = d_pos d /\ d_v d' = d_v d /\ d_stmp d' = d_stmp d.
+  Proof.
+    unfold gcl. destruct (gcl_total (gcl_fuel (d_is d)) (d_is d) (d_line d) (gcl_fuel_ok _)) as (s1 & l & b & E & _).
+    rewrite E. eexists; split; [reflexivity|]. simpl; auto.
+  Qed.
+
+  Lemma vertex_loop_safe n : forall d, safe_res (vertex_loop conv_d n d).
+  Proof.
+    induction n; intros d; simpl; [exact I|].
+    destruct (gcl_go d) as (d1 & E & _). rewrite E. simpl.
+    repeat match goal with |- context [get_float ?c ?s] => destruct (get_float c s) end.
+    destruct (d_v d1) as [[vx vy] vz]. destruct (add_vertex (d_m d1)). apply IHn.
+  Qed.
+
+  Definition two31 : Z := 2147483648.
+
+  Lemma edge_loop_safe n nvd : nvd <= two31 -> forall d, safe_res (edge_loop n nvd d).
+  Proof.
+    intros Hn. induction n; intros d; simpl; [exact I|].
+    destruct (gcl_go d) as (d1 & E & _). rewrite E. simpl.
+    destruct (get_num NU32 (sstr_of (d_line d1))) as [ss1 a]. destruct (get_num NU32 ss1) as [ss2 b].
+    destruct ((valz a 0 >=? nvd) || (valz b 0 >=? nvd)) eqn:C; [exact I|].
+    apply orb_false_iff in C. destruct C as [C1 C2].
+    assert (X : (valz a 0 >? int_max_z) || (valz b 0 >? int_max_z) = false).
+    { unfold int_max_z, two31 in *. apply orb_false_iff. split; lia. }
+    rewrite X. apply IHn.
+  Qed.
+
+  Lemma handle_loop_noub n limit : limit <= two31 -> forall ss, match handle_loop n limit ss with inr _ => False | inl _ => True end.
+  Proof.
+    intros Hl. induction n; intros ss; simpl; [exact I|].
+    destruct (get_num NU32 ss) as [ss1 a].
+    destruct (valz a 0 >=? limit) eqn:C; [exact I|].
+    assert (X : (valz a 0 >? int_max_z) = false) by (unfold int_max_z, two31 in *; lia).
+    rewrite X. specialize (IHn ss1). destruct (handle_loop n limit ss1) as [[l|]|u]; auto.
+  Qed.
+
+  Definition alloc_ok (o : opts) : Prop := o_alloc o < 8589934592.    (* 2^33 *)
+
+  Lemma read_handles_safe o isf limit d : alloc_ok o -> limit <= two31 -> safe_res (read_handles o isf limit d).
+  Proof.
+    intros Ho Hl. unfold read_handles.
+    destruct (get_num NU64 (sstr_of (d_line d))) as [ss1 vo].
+    destruct (isf && (valz vo 0 =? 0)); [exact I|].
+    destruct (alloc o (valz vo 0) 4) eqn:A; simpl; [|eapply alloc_safe; eauto].
+    apply alloc_go in A. unfold alloc_ok in Ho.
+    assert (V : (valz vo 0 <? two32) = true) by (unfold two32; lia).
+    rewrite V. pose proof (handle_loop_noub (Z.to_nat (valz vo 0)) limit Hl ss1) as N.
+    destruct (handle_loop (Z.to_nat (valz vo 0)) limit ss1) as [[l|]|u]; simpl; auto.
+  Qed.
+
+  Lemma face_loop_safe n o nhe : alloc_ok o -> nhe <= two31 -> forall d, safe_res (face_loop n o nhe d).
+  Proof.
+    intros Ho Hl. induction n; intros d; simpl; [exact I|].
+    destruct (gcl_go d) as (d1 & E & _). rewrite E. simpl.
+    pose proof (read_handles_safe o true nhe d1 Ho Hl) as R.
+    destruct (read_handles o true nhe d1) as [hes|out]; simpl; auto.
+    destruct (m_add_face o (d_m d1) hes) as [m1 [f|]]; [apply IHn | exact I].
+  Qed.
+
+  Lemma cell_loop_safe n o nhf : alloc_ok o -> nhf <= two31 -> forall d, safe_res (cell_loop n o nhf d).
+  Proof.
+    intros Ho Hl. induction n; intros d; simpl; [exact I|].
+    destruct (gcl_go d) as (d1 & E & _). rewrite E. simpl.
+    pose proof (read_handles_safe o false nhf d1 Ho Hl) as R.
+    destruct (read_handles o false nhf d1) as [hfs|out]; simpl; auto.
+    destruct (m_add_cell o (d_m d1) hfs) as [m1 [c|]]; [apply IHn | exact I].
+  Qed.
+
+  Lemma section_header_safe kw d : safe_res (section_header kw d).
+  Proof.
+    unfold section_header. destruct (gcl_go d) as (d1 & E & _). rewrite E. simpl.
+    destruct (read_keyword (sstr_of (d_line d1)) d1) as [ss d2]. destruct (bytes_eqb (d_stmp d2) (bs kw)); exact I.
+  Qed.
+
+  Lemma read_count_ok d : exists d1 n, read_count d = Go (d1, n) /\ 0 <= n.
+  Proof.
+    unfold read_count. destruct (gcl_go d) as (d1 & E & _). rewrite E. simpl.
+    destruct (get_num NU64 (sstr_of (d_line d1))) as [ss [z|]] eqn:G.
+    - exists d1, z. split; auto. eapply get_num_u64_nonneg; eauto.
+    - exists d1, 0. split; auto. lia.
+  Qed.
+
+  Lemma safe_bind {A B} (m : res A) (f : A -> res B) :
+    safe_res m -> (forall a, m = Go a -> safe_res (f a)) -> safe_res (bind m f).
+  Proof. destruct m; simpl; auto. Qed.
+
+  Lemma wrap64_small z : 0 <= z < 18446744073709551616 -> wrap64 z = z.
+  Proof. intros. unfold wrap64. apply Z.mod_small; auto. Qed.
+
+  Theorem read_stream_safe o s0 : alloc_ok o -> safe (read_stream conv_d conv_f o s0).
+  Proof.
+    intros Ho. unfold read_stream.
+    match goal with |- safe (match ?r with Stop st => _ | Go d => _ end) => set (R := r) end.
+    assert (HR : safe_res R).
+    { unfold R. clear R.
+      match goal with |- context [gcl ?d] => destruct (gcl_go d) as (d1 & E & _); rewrite E end. cbn [bind].
+      destruct (read_keyword (sstr_of (d_line d1)) d1) as [ss1 d2].
+      destruct (read_keyword ss1 d2) as [ss2 d3].
+      destruct (bytes_eqb (d_stmp d3) (bs "BINARY")); [exact I|].
+      apply safe_bind.
+      { destruct (bytes_eqb (d_stmp d2) (bs "OVM")); [|exact I]. destruct (gcl_go d3) as (d4 & E4 & _). rewrite E4. exact I. }
+      intros d4 _.
+      destruct (read_keyword (sstr_of (d_line d4)) d4) as [ss5 d5].
+      destruct (negb (bytes_eqb (d_stmp d5) (bs "VERTICES"))); [exact I|].
+      destruct (read_count_ok d5) as (d6 & nvd & E6 & Nv). rewrite E6. cbn [bind].
+      destruct (alloc o nvd 24) eqn:A1; cbn [bind]; [|eapply alloc_safe; eauto]. apply alloc_go in A1.
+      apply safe_bind; [apply vertex_loop_safe|]. intros d7 _.
+      apply safe_bind; [apply section_header_safe|]. intros d8 _.
+      destruct (read_count_ok d8) as (d9 & ned & E9 & Ne). rewrite E9. cbn [bind].
+      destruct (alloc o ned 8) eqn:A2; cbn [bind]; [|eapply alloc_safe; eauto]. apply alloc_go in A2.
+      assert (Ho' : o_alloc o < 8589934592) by exact Ho.
+      apply safe_bind; [apply edge_loop_safe; unfold two31; lia|]. intros d10 _.
+      apply safe_bind; [apply section_header_safe|]. intros d11 _.
+      destruct (read_count_ok d11) as (d12 & nfd & E12 & Nf). rewrite E12. cbn [bind].
+      destruct (alloc o nfd 24) eqn:A3; cbn [bind]; [|eapply alloc_safe; eauto]. apply alloc_go in A3.
+      apply safe_bind; [apply face_loop_safe; [exact Ho|]; rewrite wrap64_small; unfold two31; lia|]. intros d13 _.
+      apply safe_bind; [apply section_header_safe|]. intros d14 _.
+      destruct (read_count_ok d14) as (d15 & ncd & E15 & Nc). rewrite E15. cbn [bind].
+      destruct (alloc o ncd 24) eqn:A4; cbn [bind]; [|eapply alloc_safe; eauto].
+      apply alloc_go in A4.
+      apply safe_bind; [apply cell_loop_safe; [exact Ho|]; rewrite wrap64_small; unfold two31; lia|]. intros d16 _.
+      exact I. }
+    destruct R as [d|out]; [|apply stopok_safe; exact HR].
+    pose proof (prop_loop_safe conv_d conv_f (gcl_fuel (d_is d)) o (d_m d) (d_is d)
+                  [pos_entry (rev_append (d_pos d) [])] (gcl_fuel_ok _)) as P.
+    destruct (prop_loop conv_d conv_f (gcl_fuel (d_is d)) o (d_m d) (d_is d) [pos_entry (rev_append (d_pos d) [])]) as [[s1 props]|out]; [|apply stopok_safe; exact P].
+    destruct (negb (eofb s1)); exact I.
+  Qed.
+End Safety2.
+
+(* ================================================================== Part 3: a successful read gives a valid mesh *)
+
+Local Open Scope nat_scope.
+
+Definition mesh_valid (m : mesh) : Prop :=
+  (forall a b, In (a, b) (edges m) -> a < nv m /\ b < nv m) /\
+  (forall f h, In f (faces m) -> In h f -> h < 2 * ne m) /\
+  (forall c h, In c (cells m) -> In h c -> h < 2 * nf m).
+
+Definition props_sized (f : fin) : Prop :=
+  forall p, In p (f_props f) -> length (p_vals p) = count (p_kind p) (f_mesh f).
+
+Definition topo (m : mesh) := (nv m, edges m, faces m, cells m).
+
+Lemma topo_inv m a b c d : topo m = (a, b, c, d) -> nv m = a /\ edges m = b /\ faces m = c /\ cells m = d.
+Proof. unfold topo. intros H; inversion H; auto. Qed.
+
+Lemma mesh_valid_topo m m' : topo m' = topo m -> mesh_valid m -> mesh_valid m'.
+Proof.
+  unfold topo, mesh_valid, ne, nf. intros E. inversion E as [[E1 E2 E3 E4]]. rewrite E1, E2, E3, E4. auto.
+Qed.
+
+Lemma count_topo k m m' : topo m' = topo m -> count k m' = count k m.
+Proof. unfold topo. intros E. inversion E as [[E1 E2 E3 E4]]. destruct k; unfold count, ne, nf, nc; congruence. Qed.
+
+Lemma add_vertex_topo m : let '(m1, _) := add_vertex m in
+  nv m1 = S (nv m) /\ edges m1 = edges m /\ faces m1 = faces m /\ cells m1 = cells m.
+Proof. unfold add_vertex. rs. destruct (vbu m); rs; repeat split; reflexivity. Qed.
+
+Lemma add_edge_dup_topo m a b : let '(m1, _) := add_edge m a b true in
+  nv m1 = nv m /\ edges m1 = edges m ++ [(a, b)] /\ faces m1 = faces m /\ cells m1 = cells m.
+Proof.
+  unfold add_edge. pose proof (append_edge_effect m a b) as E. destruct (append_edge m a b) as [m1 e].
+  destruct E as (_ & E2 & _ & T & _). unfold topo_eq_except_edges in T. destruct T as (T1 & T2 & T3 & _). auto.
+Qed.
+
+Lemma add_face_some_topo m hes chk m1 f : add_face m hes chk = (m1, Some f) ->
+  nv m1 = nv m /\ edges m1 = edges m /\ faces m1 = faces m ++ [hes] /\ cells m1 = cells m.
+Proof.
+  unfold add_face. destruct (chk && negb (loop_ok m hes)); [discriminate|].
+  pose proof (append_face_effect m hes) as E. destruct (append_face m hes) as [m2 f2].
+  intros H; inversion H; subst. destruct E as (_ & E2 & _ & E4 & E5 & E6 & _). auto.
+Qed.
+
+Lemma add_cell_some_topo m hfs chk m1 c : add_cell m hfs chk = (m1, Some c) ->
+  nv m1 = nv m /\ edges m1 = edges m /\ faces m1 = faces m /\ cells m1 = cells m ++ [hfs].
+Proof.
+  unfold add_cell. destruct (chk && negb (cell_check m hfs)); [discriminate|].
+  pose proof (append_cell_effect m hfs) as E. destruct (append_cell m hfs) as [m2 c2].
+  intros H; inversion H; subst. destruct E as (_ & E2 & _ & E4 & E5 & E6 & _). auto.
+Qed.
+
+Lemma m_add_face_some_topo o m hes m1 f : m_add_face o m hes = (m1, Some f) ->
+  nv m1 = nv m /\ edges m1 = edges m /\ faces m1 = faces m ++ [hes] /\ cells m1 = cells m.
+Proof.
+  unfold m_add_face, tet_add_face, hex_add_face. destruct (o_mesh o).
+  - apply add_face_some_topo.
+  - destruct (negb (length hes =? 3)); [discriminate|]. apply add_face_some_topo.
+  - destruct (negb (length hes =? 4)); [discriminate|]. apply add_face_some_topo.
+Qed.
+
+(* entries of the re-ordered list come from the given list *)
+Definition from_list (hfs : list nat) (o : option nat) : Prop := match o with Some x => In x hfs | None => True end.
+
+Lemma get_adjacent_in s a b l x : get_adjacent_halfface s a b l = Some x -> In x l.
+Proof. unfold get_adjacent_halfface. destruct b; [|discriminate]. intros H. apply find_some in H. tauto. Qed.
+
+Lemma Forall_upd {A} (P : A -> Prop) i x l : P x -> Forall P l -> Forall P (upd i x l).
+Proof.
+  intros Hx H. revert i. induction H; intros i; destruct i; simpl; constructor; auto.
+Qed.
+
+Lemma reorder_top_from s hfs : hfs <> [] -> Forall (from_list hfs) (reorder_top s hfs).
+Proof.
+  intros Hne. unfold reorder_top.
+  assert (H0 : In (hx hfs 0) hfs). { unfold hx. destruct hfs; [congruence|]. left; reflexivity. }
+  match goal with |- Forall _ (fst (fold_left ?f ?l ?a)) =>
+    assert (G : forall l0 acc, Forall (from_list hfs) (fst acc) -> Forall (from_list hfs) (fst (fold_left f l0 acc))) end.
+  { induction l0; intros acc Ha; cbn [fold_left]; auto. apply IHl0. destruct acc as [ord idx].
+    destruct (get_adjacent_halfface s (Some (hx hfs 0)) (Some a) hfs) eqn:E; cbn [fst] in *; auto.
+    apply Forall_upd; auto. cbn [from_list]. eapply get_adjacent_in; eauto. }
+  apply G. cbn [fst]. apply Forall_upd; [exact H0|]. repeat constructor.
+Qed.
+
+Lemma all_some_from hfs l : forall r, Forall (from_list hfs) l -> all_some l = Some r -> forall x, In x r -> In x hfs.
+Proof.
+  induction l; simpl; intros r F H x Hx.
+  - inversion H; subst. destruct Hx.
+  - inversion F; subst. destruct a; [|discriminate]. destruct (all_some l) eqn:E; [|discriminate].
+    inversion H; subst. destruct Hx as [->|Hx]; [assumption|]. eapply IHl; eauto.
+Qed.
+
+Lemma m_add_cell_some_topo o m hfs m1 c : m_add_cell o m hfs = (m1, Some c) ->
+  exists l, (forall x, In x l -> In x hfs) /\
+            nv m1 = nv m /\ edges m1 = edges m /\ faces m1 = faces m /\ cells m1 = cells m ++ [l].
+Proof.
+  unfold m_add_cell, tet_add_cell, hex_add_cell. destruct (o_mesh o).
+  - intros H. exists hfs. split; auto. eapply add_cell_some_topo; eauto.
+  - destruct (negb (length hfs =? 4)); [discriminate|].
+    destruct (negb (forallb _ hfs)); [discriminate|].
+    destruct (o_check o && negb _); [discriminate|].
+    intros H. exists hfs. split; auto. eapply add_cell_some_topo; eauto.
+  - destruct (Nat.eqb_spec (length hfs) 6) as [L|L]; cbn [negb]; [|discriminate].
+    destruct (negb (forallb _ hfs)); [discriminate|].
+    destruct (negb (o_check o)).
+    { intros H. exists hfs. split; auto. eapply add_cell_some_topo; eauto. }
+    destruct (check_halfface_ordering m hfs).
+    { intros H. exists hfs. split; auto. eapply add_cell_some_topo; eauto. }
+    destruct (reorder_bottom m hfs) as [b|] eqn:B; [|discriminate].
+    destruct (all_some (upd 1 (Some b) (reorder_top m hfs))) as [l|] eqn:A; [|discriminate].
+    destruct (check_halfface_ordering m l); [|discriminate].
+    intros H. exists l. split; [|eapply add_cell_some_topo; eauto].
+    assert (Hne : hfs <> []) by (destruct hfs; simpl in L; [lia|discriminate]).
+    eapply all_some_from; [|exact A]. apply Forall_upd; [|apply reorder_top_from; auto].
+    simpl. unfold reorder_bottom in B. eapply get_adjacent_in; eauto.
+Qed.
+
+Lemma topo_enable_vbu b m : topo (enable_vbu b m) = topo m.
+Proof. unfold enable_vbu. destruct (b && negb (vbu m)); destruct (negb b); reflexivity. Qed.
+
+Lemma topo_reorder_edges es m : topo (reorder_edges es m) = topo m.
+Proof. pose proof (reorder_edges_frame es m) as F. simpl in F. destruct F as (A&B&C&D&_). unfold topo. congruence. Qed.
+
+Lemma topo_enable_ebu b m : topo (enable_ebu b m) = topo m.
+Proof.
+  unfold enable_ebu. destruct (b && negb (ebu m)).
+  - rs. destruct (fbu m); destruct (negb b); rs; unfold topo; rs;
+      try (rewrite (topo_reorder_edges _ _)); try reflexivity;
+      match goal with |- context [reorder_edges ?e ?x] => pose proof (topo_reorder_edges e x) as T; unfold topo in T; inversion T as [[T1 T2 T3 T4]]; rewrite ?T1, ?T2, ?T3, ?T4; reflexivity end.
+  - destruct (negb b); reflexivity.
+Qed.
+
+Lemma topo_enable_fbu b m : topo (enable_fbu b m) = topo m.
+Proof.
+  unfold enable_fbu. destruct (b && negb (fbu m)); cbn [andb].
+  - destruct (negb b); rs;
+      match goal with
+      | |- context [if ?c then _ else _] => destruct c
+      end; try reflexivity;
+      match goal with |- topo (reorder_edges ?e ?x) = _ => rewrite (topo_reorder_edges e x); reflexivity end.
+  - destruct (negb b); reflexivity.
+Qed.
+
+Lemma bind_go {A B} (m : res A) (f : A -> res B) b : bind m f = Go b -> exists a, m = Go a /\ f a = Go b.
+Proof. destruct m; simpl; [eauto|discriminate]. Qed.
+
+Lemma mesh_valid_add_vertex m : mesh_valid m -> mesh_valid (fst (add_vertex m)).
+Proof.
+  pose proof (add_vertex_topo m) as T. destruct (add_vertex m) as [m1 v]. destruct T as (T1 & T2 & T3 & T4). simpl.
+  unfold mesh_valid, ne, nf. rewrite T1, T2, T3, T4. intros (A & B & C). repeat split; auto;
+    destruct (A _ _ H); lia.
+Qed.
+
+Section Valid.
+  Variable conv_d : list byte -> Z * bool.
+  Variable conv_f : list byte -> Z * bool.
+
+  Definition dinv (d : rd) : Prop := mesh_valid (d_m d) /\ length (d_pos d) = nv (d_m d).
+
+  Lemma gcl_keeps d d' : gcl d = Go d' -> d_m d' = d_m d /\ d_pos d' = d_pos d.
+  Proof. destruct (gcl_go d) as (d1 & E & A & B & _). rewrite E. intros H; inversion H; subst; auto. Qed.
+
+  Lemma vertex_loop_inv n : forall d d', vertex_loop conv_d n d = Go d' -> dinv d ->
+    dinv d' /\ nv (d_m d') = nv (d_m d) + n /\ edges (d_m d') = edges (d_m d) /\ faces (d_m d') = faces (d_m d) /\ cells (d_m d') = cells (d_m d).
+  Proof.
+    induction n; intros d d' H I.
+    - simpl in H. inversion H; subst. split; [exact I|]. repeat split; auto.
+    - cbn [vertex_loop] in H. apply bind_go in H. destruct H as (d1 & G & H). apply gcl_keeps in G. destruct G as [G1 G2].
+      repeat match type of H with context [get_float ?c ?s] => destruct (get_float c s) end.
+      destruct (d_v d1) as [[vx vy] vz].
+      pose proof (add_vertex_topo (d_m d1)) as T. pose proof (mesh_valid_add_vertex (d_m d1)) as V.
+      destruct (add_vertex (d_m d1)) as [m1 vh]. destruct T as (T1 & T2 & T3 & T4). simpl in V.
+      apply IHn in H.
+      + cbn [d_m d_pos] in H. destruct H as (A & B & C & D & E). split; auto. rewrite B, C, D, E, T1, T2, T3, T4, G1. repeat split; auto; lia.
+      + unfold dinv in *. cbn [d_m d_pos]. rewrite G1, G2 in *. split; [apply V; apply I|]. simpl. destruct I as [_ I2]. rewrite I2, T1. reflexivity.
+  Qed.
+
+  Lemma edge_loop_inv n nvd : forall d d', edge_loop n nvd d = Go d' -> dinv d -> Z.to_nat nvd <= nv (d_m d) ->
+    dinv d' /\ nv (d_m d') = nv (d_m d) /\ ne (d_m d') = ne (d_m d) + n /\ faces (d_m d') = faces (d_m d) /\ cells (d_m d') = cells (d_m d).
+  Proof.
+    induction n; intros d d' H I Hn.
+    - simpl in H. inversion H; subst. split; [exact I|]. repeat split; auto; lia.
+    - cbn [edge_loop] in H. apply bind_go in H. destruct H as (d1 & G & H). apply gcl_keeps in G. destruct G as [G1 G2].
+      destruct (get_num NU32 (sstr_of (d_line d1))) as [ss1 a] eqn:Ea. destruct (get_num NU32 ss1) as [ss2 b] eqn:Eb.
+      destruct ((valz a 0 >=? nvd)%Z || (valz b 0 >=? nvd)%Z) eqn:C; [discriminate|].
+      destruct ((valz a 0 >? int_max_z)%Z || (valz b 0 >? int_max_z)%Z); [discriminate|].
+      apply orb_false_iff in C. destruct C as [C1 C2].
+      assert (Na : (0 <= valz a 0)%Z) by (destruct a; simpl; [eapply get_num_u32_nonneg; eauto | lia]).
+      assert (Nb : (0 <= valz b 0)%Z) by (destruct b; simpl; [eapply get_num_u32_nonneg; eauto | lia]).
+      pose proof (add_edge_dup_topo (d_m d1) (Z.to_nat (valz a 0)) (Z.to_nat (valz b 0))) as T.
+      destruct (add_edge (d_m d1) (Z.to_nat (valz a 0)) (Z.to_nat (valz b 0)) true) as [m1 e]. destruct T as (T1 & T2 & T3 & T4).
+      apply IHn in H.
+      + cbn [d_m d_pos with_mesh] in H. destruct H as (A & B & C & D & E). split; auto. unfold ne in *. rewrite B, C, D, E, T1, T2, T3, T4, G1.
+        rewrite app_length. simpl. repeat split; auto; lia.
+      + unfold dinv in *. cbn [d_m d_pos with_mesh]. rewrite G1, G2 in *. destruct I as [(Ia & Ib & Ic) I2]. split; [|rewrite T1; auto].
+        unfold mesh_valid, ne, nf. rewrite T1, T2, T3, T4. split; [|split].
+        * intros x y Hin. apply in_app_or in Hin. destruct Hin as [Hin|[Hin|[]]]; [apply Ia; auto|]. inversion Hin; subst. lia.
+        * intros f h Hf Hh. specialize (Ib f h Hf Hh). unfold ne in Ib. rewrite app_length. simpl. lia.
+        * apply Ic.
+      + cbn [d_m with_mesh]. rewrite T1, G1. auto.
+  Qed.
+
+  Lemma handle_loop_bound n limit : forall ss l, handle_loop n limit ss = inl (Some l) -> Forall (fun h => (Z.of_nat h < limit)%Z) l.
+  Proof.
+    induction n; intros ss l H; simpl in H.
+    - inversion H; subst. constructor.
+    - destruct (get_num NU32 ss) as [ss1 a] eqn:Ea.
+      destruct (valz a 0 >=? limit)%Z eqn:C; [discriminate|].
+      destruct (valz a 0 >? int_max_z)%Z; [discriminate|].
+      assert (Na : (0 <= valz a 0)%Z) by (destruct a; simpl; [eapply get_num_u32_nonneg; eauto | lia]).
+      destruct (handle_loop n limit ss1) as [[l1|]|u] eqn:R; inversion H; subst.
+      constructor; [lia|]. eapply IHn; eauto.
+  Qed.
+
+  Lemma read_handles_bound o isf limit d l : read_handles o isf limit d = Go l -> Forall (fun h => (Z.of_nat h < limit)%Z) l.
+  Proof.
+    unfold read_handles. destruct (get_num NU64 (sstr_of (d_line d))) as [ss1 vo].
+    destruct (isf && (valz vo 0 =? 0)%Z); [discriminate|].
+    destruct (alloc o (valz vo 0) 4); cbn [bind]; [|discriminate].
+    destruct (valz vo 0 <? two32)%Z.
+    - destruct (handle_loop (Z.to_nat (valz vo 0)) limit ss1) as [[l1|]|u] eqn:R; try discriminate.
+      intros H; inversion H; subst. eapply handle_loop_bound; eauto.
+    - destruct (handle_loop (S (length (d_line d))) limit ss1) as [[l1|]|u]; discriminate.
+  Qed.
+
+  Lemma face_loop_inv n o nhe : forall d d', face_loop n o nhe d = Go d' -> dinv d -> (nhe <= Z.of_nat (2 * ne (d_m d)))%Z ->
+    dinv d' /\ nv (d_m d') = nv (d_m d) /\ edges (d_m d') = edges (d_m d) /\ nf (d_m d') = nf (d_m d) + n /\ cells (d_m d') = cells (d_m d).
+  Proof.
+    induction n; intros d d' H I Hn.
+    - simpl in H. inversion H; subst. split; [exact I|]. repeat split; auto; lia.
+    - cbn [face_loop] in H. apply bind_go in H. destruct H as (d1 & G & H). apply gcl_keeps in G. destruct G as [G1 G2].
+      apply bind_go in H. destruct H as (hes & R & H). apply read_handles_bound in R.
+      destruct (m_add_face o (d_m d1) hes) as [m1 [f|]] eqn:M; [|discriminate].
+      apply m_add_face_some_topo in M. destruct M as (T1 & T2 & T3 & T4).
+      apply IHn in H.
+      + cbn [d_m with_mesh] in H. destruct H as (A & B & C & D & E). split; auto. unfold nf in *. rewrite B, C, D, E, T1, T2, T3, T4, G1.
+        rewrite app_length. simpl. repeat split; auto; lia.
+      + unfold dinv in *. cbn [d_m d_pos with_mesh]. rewrite G1, G2 in *. destruct I as [(Ia & Ib & Ic) I2]. split; [|rewrite T1; auto].
+        unfold mesh_valid, ne, nf. rewrite T1, T2, T3, T4. split; [exact Ia|split].
+        * intros f0 h Hf Hh. apply in_app_or in Hf. destruct Hf as [Hf|[Hf|[]]]; [eapply Ib; eauto|]. subst f0.
+          rewrite Forall_forall in R. specialize (R h Hh). unfold ne in *. lia.
+        * intros c h Hc Hh. specialize (Ic c h Hc Hh). unfold nf in Ic. rewrite app_length. simpl. lia.
+      + cbn [d_m with_mesh]. unfold ne in *. rewrite T2, G1. auto.
+  Qed.
+
+  Lemma cell_loop_inv n o nhf : forall d d', cell_loop n o nhf d = Go d' -> dinv d -> (nhf <= Z.of_nat (2 * nf (d_m d)))%Z ->
+    dinv d' /\ nv (d_m d') = nv (d_m d) /\ edges (d_m d') = edges (d_m d) /\ faces (d_m d') = faces (d_m d).
+  Proof.
+    induction n; intros d d' H I Hn.
+    - simpl in H. inversion H; subst. split; [exact I|]. repeat split; auto.
+    - cbn [cell_loop] in H. apply bind_go in H. destruct H as (d1 & G & H). apply gcl_keeps in G. destruct G as [G1 G2].
+      apply bind_go in H. destruct H as (hfs & R & H). apply read_handles_bound in R.
+      destruct (m_add_cell o (d_m d1) hfs) as [m1 [c|]] eqn:M; [|discriminate].
+      apply m_add_cell_some_topo in M. destruct M as (l & Sub & T1 & T2 & T3 & T4).
+      apply IHn in H.
+      + cbn [d_m with_mesh] in H. destruct H as (A & B & C & D). split; auto. rewrite B, C, D, T1, T2, T3, G1. auto.
+      + unfold dinv in *. cbn [d_m d_pos with_mesh]. rewrite G1, G2 in *. destruct I as [(Ia & Ib & Ic) I2]. split; [|rewrite T1; auto].
+        unfold mesh_valid, ne, nf. rewrite T1, T2, T3, T4. split; [exact Ia|split; [exact Ib|]].
+        intros c0 h Hc Hh. apply in_app_or in Hc. destruct Hc as [Hc|[Hc|[]]]; [eapply Ic; eauto|]. subst c0.
+        rewrite Forall_forall in R. specialize (R h (Sub h Hh)). unfold nf in *. lia.
+      + cbn [d_m with_mesh]. unfold nf in *. rewrite T3, G1. auto.
+  Qed.
+
+  (* ------------------------------------------------------------------ properties stay sized *)
+
+  Lemma deser_all_length o t olds : forall s s' vs, deser_all conv_d conv_f o t olds s = inl (s', vs) -> length vs = length olds.
+  Proof.
+    induction olds; simpl; intros s s' vs H.
+    - inversion H; reflexivity.
+    - destruct (deser conv_d conv_f o t s a) as [s1 v|out]; [|discriminate].
+      destruct (deser_all conv_d conv_f o t olds s1) as [[s2 vs2]|out] eqn:E; [|discriminate].
+      inversion H; subst. simpl. f_equal. eapply IHolds; eauto.
+  Qed.
+
+  Lemma kind_eqb_eq a b : kind_eqb a b = true -> a = b.
+  Proof. destruct a, b; simpl; congruence. Qed.
+
+  Lemma find_prop_spec k name t l : forall i j p, find_prop k name t l i = Some (j, p) -> In p l /\ p_kind p = k.
+  Proof.
+    induction l; simpl; intros i j p H; [discriminate|].
+    destruct (prop_matches k name t a) eqn:M.
+    - inversion H; subst. split; [left; reflexivity|]. unfold prop_matches in M.
+      apply andb_true_iff in M. destruct M as [M _]. apply andb_true_iff in M. destruct M as [M _]. symmetry. apply kind_eqb_eq; auto.
+    - apply IHl in H. destruct H; split; [right|]; auto.
+  Qed.
+
+  Definition sized_in (m : mesh) (p : pentry) : Prop := length (p_vals p) = count (p_kind p) m.
+
+  Lemma generate_property_sized o m k name t s props s' props' :
+    generate_property conv_d conv_f o m k name t s props = Go (s', props') -> Forall (sized_in m) props -> Forall (sized_in m) props'.
+  Proof.
+    unfold generate_property. destruct name as [|c nm].
+    - intros H; inversion H; subst; auto.
+    - destruct (find_prop k (c :: nm) t props 0) as [[i p]|] eqn:F.
+      + destruct (deser_all conv_d conv_f o t (p_vals p) s) as [[s1 vs]|out] eqn:D; [|discriminate].
+        intros H Hs; inversion H; subst. apply find_prop_spec in F. destruct F as [Fi Fk].
+        apply deser_all_length in D. apply Forall_upd; auto. unfold sized_in; cbn [p_vals p_kind].
+        rewrite Forall_forall in Hs. specialize (Hs p Fi). unfold sized_in in Hs. congruence.
+      + destruct (deser_all conv_d conv_f o t (repeat (default_val t) (count k m)) s) as [[s1 vs]|out] eqn:D; [|discriminate].
+        intros H Hs; inversion H; subst. apply deser_all_length in D. rewrite repeat_length in D.
+        apply Forall_app. split; [exact Hs|]. constructor; [exact D|constructor].
+  Qed.
+
+  Lemma read_property_sized o m s props s' props' :
+    read_property conv_d conv_f o m s props = Go (s', props') -> Forall (sized_in m) props -> Forall (sized_in m) props'.
+  Proof.
+    unfold read_property. destruct (get_clean_line (gcl_fuel s) s []) as [[[s1 line] b]|]; [|discriminate].
+    destruct line as [|c l]; [intros H; inversion H; subst; auto|].
+    destruct (get_word (sstr_of (c :: l))) as [ss1 w1]. destruct (get_word ss1) as [ss2 w2].
+    destruct (type_of_name _) as [t|]; [|intros H; inversion H; subst; auto].
+    destruct (extract_quoted (c :: l)) as [|c0 nm]; [intros H; inversion H; subst; auto|].
+    destruct (kind_of_name _) as [k|]; [|intros H; inversion H; subst; auto].
+    apply generate_property_sized.
+  Qed.
+
+  Lemma prop_loop_sized : forall fuel o m s props s' props',
+    prop_loop conv_d conv_f fuel o m s props = Go (s', props') -> Forall (sized_in m) props -> Forall (sized_in m) props'.
+  Proof.
+    induction fuel; intros o m s props s' props' H Hs; simpl in H.
+    - destruct (good s); [discriminate|]. inversion H; subst; auto.
+    - destruct (good s); [|inversion H; subst; auto].
+      apply bind_go in H. destruct H as ([s1 p1] & R & H). apply read_property_sized in R; auto. eapply IHfuel; eauto.
+  Qed.
+End Valid.
+
+Section Valid2.
+  Variable conv_d : list byte -> Z * bool.
+  Variable conv_f : list byte -> Z * bool.
+
+  Lemma read_keyword_keeps ss d ss' d' : read_keyword ss d = (ss', d') -> d_m d' = d_m d /\ d_pos d' = d_pos d.
+  Proof. unfold read_keyword. destruct (get_word ss). intros H; inversion H; subst; auto. Qed.
+
+  Lemma section_header_keeps kw d d' : section_header kw d = Go d' -> d_m d' = d_m d /\ d_pos d' = d_pos d.
+  Proof.
+    unfold section_header. intros H. apply bind_go in H. destruct H as (d1 & G & H). apply gcl_keeps in G.
+    destruct (read_keyword (sstr_of (d_line d1)) d1) as [ss d2] eqn:K. apply read_keyword_keeps in K.
+    destruct (bytes_eqb (d_stmp d2) (bs kw)); inversion H; subst. destruct G, K; split; congruence.
+  Qed.
+
+  Lemma read_count_keeps d d' n : read_count d = Go (d', n) -> d_m d' = d_m d /\ d_pos d' = d_pos d /\ (0 <= n)%Z.
+  Proof.
+    intros H. destruct (read_count_ok d) as (d1 & n1 & E & N). rewrite E in H. inversion H; subst.
+    unfold read_count in E. apply bind_go in E. destruct E as (d2 & G & E). apply gcl_keeps in G.
+    destruct (get_num NU64 (sstr_of (d_line d2))). inversion E; subst. tauto.
+  Qed.
+
+  Lemma wrap64_le z : (0 <= z)%Z -> (wrap64 z <= z)%Z.
+  Proof. intros. unfold wrap64. apply Z.mod_le; lia. Qed.
+
+  Theorem read_stream_valid o s0 f : read_stream conv_d conv_f o s0 = RTrue f -> mesh_valid (f_mesh f) /\ props_sized f.
+  Proof.
+    unfold read_stream.
+    match goal with |- match ?r with Stop st => _ | Go d => _ end = _ -> _ => set (R := r) end.
+    assert (HR : forall d, R = Go d -> dinv d).
+    { unfold R. clear R. intros d H.
+      apply bind_go in H. destruct H as (d1 & G1 & H). apply gcl_keeps in G1. cbn [d_m d_pos] in G1.
+      destruct (read_keyword (sstr_of (d_line d1)) d1) as [ss1 d2] eqn:K2. apply read_keyword_keeps in K2.
+      destruct (read_keyword ss1 d2) as [ss2 d3] eqn:K3. apply read_keyword_keeps in K3.
+      destruct (bytes_eqb (d_stmp d3) (bs "BINARY")); [discriminate|].
+      apply bind_go in H. destruct H as (d4 & G4 & H).
+      assert (K4 : d_m d4 = d_m d3 /\ d_pos d4 = d_pos d3).
+      { destruct (bytes_eqb (d_stmp d2) (bs "OVM")); [apply gcl_keeps; auto | inversion G4; auto]. }
+      destruct (read_keyword (sstr_of (d_line d4)) d4) as [ss5 d5] eqn:K5. apply read_keyword_keeps in K5.
+      destruct (negb (bytes_eqb (d_stmp d5) (bs "VERTICES"))); [discriminate|].
+      apply bind_go in H. destruct H as ([d6 nvd] & C6 & H). apply read_count_keeps in C6. destruct C6 as (M6 & P6 & Nv).
+      apply bind_go in H. destruct H as (_ & _ & H).
+      assert (T6 : topo (d_m d6) = (0, [], [], []) /\ d_pos d6 = []).
+      { destruct G1, K2, K3, K4, K5. split.
+        - replace (d_m d6) with (d_m d1) by congruence. rewrite H0. reflexivity.
+        - congruence. }
+      destruct T6 as [T6 P0]. apply topo_inv in T6. destruct T6 as (T6a & T6b & T6c & T6d).
+      assert (I6 : dinv d6).
+      { split; [|rewrite P0, T6a; reflexivity]. unfold mesh_valid. rewrite T6b, T6c, T6d.
+        split. { intros a0 b0 X. inversion X. }
+        split. { intros f0 h0 X. inversion X. }
+        intros c0 h0 X. inversion X. }
+      apply bind_go in H. destruct H as (d7 & V7 & H). apply vertex_loop_inv in V7; auto. destruct V7 as (I7 & N7 & E7 & F7 & C7).
+      apply bind_go in H. destruct H as (d8 & S8 & H). apply section_header_keeps in S8. destruct S8 as [M8 P8].
+      apply bind_go in H. destruct H as ([d9 ned] & C9 & H). apply read_count_keeps in C9. destruct C9 as (M9 & P9 & Ne).
+      apply bind_go in H. destruct H as (_ & _ & H).
+      assert (I9 : dinv d9) by (unfold dinv in *; rewrite M9, P9, M8, P8; auto).
+      apply bind_go in H. destruct H as (d10 & L10 & H).
+      apply edge_loop_inv in L10; auto; [|rewrite M9, M8, N7, T6a; lia]. destruct L10 as (I10 & N10 & E10 & F10 & C10).
+      apply bind_go in H. destruct H as (d11 & S11 & H). apply section_header_keeps in S11. destruct S11 as [M11 P11].
+      apply bind_go in H. destruct H as ([d12 nfd] & C12 & H). apply read_count_keeps in C12. destruct C12 as (M12 & P12 & Nf).
+      apply bind_go in H. destruct H as (_ & _ & H).
+      assert (I12 : dinv d12) by (unfold dinv in *; rewrite M12, P12, M11, P11; auto).
+      apply bind_go in H. destruct H as (d13 & L13 & H).
+      apply face_loop_inv in L13; auto.
+      2:{ rewrite M12, M11, E10, M9, M8. unfold ne. rewrite E7, T6b. simpl length.
+          pose proof (wrap64_le (2 * ned)%Z ltac:(lia)). lia. }
+      destruct L13 as (I13 & N13 & E13 & F13 & C13).
+      apply bind_go in H. destruct H as (d14 & S14 & H). apply section_header_keeps in S14. destruct S14 as [M14 P14].
+      apply bind_go in H. destruct H as ([d15 ncd] & C15 & H). apply read_count_keeps in C15. destruct C15 as (M15 & P15 & Nc).
+      apply bind_go in H. destruct H as (_ & _ & H).
+      assert (I15 : dinv d15) by (unfold dinv in *; rewrite M15, P15, M14, P14; auto).
+      apply bind_go in H. destruct H as (d16 & L16 & H).
+      apply cell_loop_inv in L16; auto.
+      2:{ rewrite M15, M14, F13, M12, M11. unfold nf. rewrite F10, M9, M8, F7, T6c. simpl length.
+          pose proof (wrap64_le (2 * nfd)%Z ltac:(lia)). lia. }
+      destruct L16 as (I16 & _). inversion H; subst. exact I16. }
+    destruct R as [d|out] eqn:ER.
+    - specialize (HR d eq_refl). destruct HR as [MV PL].
+      destruct (prop_loop conv_d conv_f (gcl_fuel (d_is d)) o (d_m d) (d_is d) [pos_entry (rev_append (d_pos d) [])]) as [[s1 props]|out] eqn:P.
+      + apply prop_loop_sized in P.
+        2:{ constructor; [|constructor]. unfold sized_in, pos_entry; cbn [p_vals p_kind count].
+            rewrite rev_append_rev, app_nil_r, rev_length. exact PL. }
+        destruct (negb (eofb s1)); [discriminate|].
+        intros H; inversion H; subst; clear H. cbn [f_mesh f_props].
+        set (m1 := if o_bu o then enable_fbu true (enable_ebu true (enable_vbu true (d_m d))) else d_m d).
+        assert (T : topo m1 = topo (d_m d)).
+        { unfold m1. destruct (o_bu o); [|reflexivity]. rewrite topo_enable_fbu, topo_enable_ebu, topo_enable_vbu. reflexivity. }
+        split; [eapply mesh_valid_topo; eauto|].
+        unfold props_sized; cbn [f_mesh f_props]. intros p Hp. rewrite Forall_forall in P. specialize (P p Hp).
+        unfold sized_in in P. rewrite (count_topo _ _ _ T). exact P.
+      + intros H. exfalso. eapply stop_not_true; eauto.
+    - intros H. exfalso. eapply stop_not_true; eauto.
+  Qed.
+End Valid2.
+
+(* ================================================================== the capped map loop is the literal loop *)
+
+Lemma zeros_loop_found l : forall f f' r, zeros_loop l f = (f', r) -> f' = true -> f = true \/ length r < length l.
+Proof.
+  destruct l as [|a l]; simpl; intros f f' r H Hf.
+  - inversion H; subst; auto.
+  - destruct (a =? c_zero)%Z.
+    + right. apply zeros_loop_le in H. lia.
+    + inversion H; subst; auto.
+Qed.
+
+Lemma digits_loop_any mx sm md l : forall res ovf any r' o' a' l',
+  digits_loop mx sm md l res ovf any = (r', o', a', l') -> a' = true -> any = true \/ length l' < length l.
+Proof.
+  destruct l as [|c l]; simpl; intros res ovf any r' o' a' l' H Ha.
+  - inversion H; subst; auto.
+  - destruct (is_digit c).
+    + right. destruct (res >? sm)%Z; apply digits_loop_le in H; lia.
+    + inversion H; subst; auto.
+Qed.
+
+(* an integer extraction that does not fail consumed at least one character *)
+Lemma extract_int_ok_consumes w sg l v r : extract_int w sg l = (v, false, r) -> length r < length l.
+Proof.
+  unfold extract_int.
+  set (x := match l with
+            | [] => (false, [])
+            | c :: t => if (c =? c_minus)%Z then (true, t) else if (c =? c_plus)%Z then (false, t) else (false, l)
+            end).
+  assert (Hx : length (snd x) <= length l).
+  { unfold x. destruct l as [|c t]; simpl; auto. destruct (c =? c_minus)%Z; simpl; [lia|]. destruct (c =? c_plus)%Z; simpl; lia. }
+  destruct x as [neg l1]. simpl in Hx.
+  destruct (zeros_loop l1 false) as [fz l2] eqn:Z. pose proof (zeros_loop_le _ _ _ _ Z) as Z1. pose proof (zeros_loop_found _ _ _ _ Z) as Z2.
+  match goal with |- context [digits_loop ?a ?b ?c ?d ?e ?f ?g] => destruct (digits_loop a b c d e f g) as [[[res ovf] any] l3] eqn:D end.
+  pose proof (digits_loop_le _ _ _ _ _ _ _ _ _ _ _ D) as D1. pose proof (digits_loop_any _ _ _ _ _ _ _ _ _ _ _ D) as D2.
+  destruct any; destruct fz; cbn [negb andb].
+  - destruct ovf; intros H; inversion H; subst. destruct (D2 eq_refl); [discriminate|lia].
+  - destruct ovf; intros H; inversion H; subst. destruct (D2 eq_refl); [discriminate|lia].
+  - destruct ovf; intros H; inversion H; subst. destruct (Z2 eq_refl); [discriminate|lia].
+  - intros H; inversion H.
+Qed.
+
+Lemma parse_num_ok_consumes t l v r : t <> NBool -> parse_num t l = (v, false, r) -> length r < length l.
+Proof.
+  intros Ht. destruct t; simpl; try congruence.
+  - apply extract_int_ok_consumes.
+  - apply extract_int_ok_consumes.
+  - apply extract_int_ok_consumes.
+  - destruct (extract_int 64 true l) as [[v0 f0] l0] eqn:E. unfold clamp.
+    destruct (v0 <? -2147483648)%Z; [discriminate|]. destruct (v0 >? 2147483647)%Z; [discriminate|].
+    intros H; inversion H; subst. eapply extract_int_ok_consumes; eauto.
+  - destruct (extract_int 64 true l) as [[v0 f0] l0] eqn:E. unfold clamp.
+    destruct (v0 <? -32768)%Z; [discriminate|]. destruct (v0 >? 32767)%Z; [discriminate|].
+    intros H; inversion H; subst. eapply extract_int_ok_consumes; eauto.
+Qed.
+
+Lemma get_num_ok_consumes t s s' v : t <> NBool -> get_num t s = (s', v) -> failb s' = false -> len s' < len s.
+Proof.
+  intros Ht. unfold get_num. destruct (sentry true s) as [s1 ok] eqn:S. pose proof (sentry_le _ _ _ _ S) as L.
+  destruct ok.
+  - destruct (parse_num t (rest s1)) as [[v0 f] l] eqn:P.
+    intros H F; inversion H; subst. cbn [failb mk] in F. subst f. apply parse_num_ok_consumes in P; auto.
+    unfold len in *; simpl; lia.
+  - intros H F; inversion H; subst. unfold sentry in S. destruct (good s).
+    + destruct (skipws (rest s)); inversion S; subst; discriminate F.
+    + inversion S; subst. discriminate F.
+Qed.
+
+Lemma deser_map_loop_cap_nat : forall n k s acc, S (len s) <= k ->
+  deser_map_loop n s acc = deser_map_loop (Nat.min n k) s acc.
+Proof.
+  induction n; intros k s acc Hk; [reflexivity|].
+  destruct k as [|k]; [lia|]. cbn [Nat.min deser_map_loop].
+  destruct (get_num NI32 s) as [s1 kv] eqn:E1. destruct (get_num NI32 s1) as [s2 vv] eqn:E2.
+  destruct (failb s2) eqn:F; [reflexivity|].
+  apply IHn. pose proof (get_num_le _ _ _ _ E1). apply get_num_ok_consumes in E2; auto; [lia|discriminate].
+Qed.
+
+Theorem deser_map_loop_cap n s acc : (0 <= n)%Z -> deser_map_loop (Z.to_nat n) s acc = deser_map_loop (map_iters n s) s acc.
+Proof.
+  intros Hn. unfold map_iters. rewrite (deser_map_loop_cap_nat (Z.to_nat n) (S (len s)) s acc) by lia.
+  f_equal. unfold len. lia.
+Qed.
+
+(* ================================================================== Part 4: C06 - what the writer prints, the reader reads *)
+
+Local Open Scope Z_scope.
+
+(* ------------------------------------------------------------------ decimal digits *)
+
+Definition dval (ds : list byte) (res : Z) : Z := fold_left (fun a d => a * 10 + (d - 48)) ds res.
+Definition all_digits (ds : list byte) : Prop := Forall (fun c => 48 <= c <= 57) ds.
+
+Lemma dval_app a b r : dval (a ++ b) r = dval b (dval a r).
+Proof. unfold dval. apply fold_left_app. Qed.
+
+Lemma dec_digits_acc fuel : forall n acc, dec_digits fuel n acc = dec_digits fuel n [] ++ acc.
+Proof.
+  induction fuel; intros n acc; cbn [dec_digits]; [reflexivity|].
+  destruct (n <? 10); [reflexivity|].
+  rewrite (IHfuel (n / 10) ((48 + n mod 10) :: acc)). symmetry. rewrite IHfuel. rewrite <- app_assoc. reflexivity.
+Qed.
+
+Lemma dec_digits_spec k : forall n, 0 <= n < 10 ^ Z.of_nat (S k) ->
+  all_digits (dec_digits (S k) n []) /\ dval (dec_digits (S k) n []) 0 = n /\ dec_digits (S k) n [] <> [] /\
+  (0 < n -> exists c t, dec_digits (S k) n [] = c :: t /\ c <> 48).
+Proof.
+  induction k; intros n Hn.
+  - cbn [dec_digits]. assert (L : (n <? 10) = true) by (change (10 ^ Z.of_nat 1) with 10 in Hn; lia). rewrite L.
+    repeat split.
+    + constructor; [lia|constructor].
+    + unfold dval; cbn [fold_left]. lia.
+    + discriminate.
+    + intros Hp. exists (48 + n), []. split; [reflexivity|lia].
+  - remember (S k) as k1. cbn [dec_digits]. destruct (n <? 10) eqn:L.
+    + repeat split.
+      * constructor; [lia|constructor].
+      * unfold dval; cbn [fold_left]. lia.
+      * discriminate.
+      * intros Hp. exists (48 + n), []. split; [reflexivity|lia].
+    + rewrite dec_digits_acc.
+      assert (Hq : 0 <= n / 10 < 10 ^ Z.of_nat k1).
+      { rewrite Nat2Z.inj_succ, Z.pow_succ_r in Hn by lia. split; [apply Z.div_pos; lia|]. apply Z.div_lt_upper_bound; lia. }
+      subst k1. destruct (IHk _ Hq) as (A & B & C & D).
+      assert (Hm : 0 <= n mod 10 < 10) by (apply Z.mod_pos_bound; lia).
+      repeat split.
+      * apply Forall_app. split; auto. constructor; [lia|constructor].
+      * rewrite dval_app, B. unfold dval; cbn [fold_left]. pose proof (Z.div_mod n 10 ltac:(lia)). lia.
+      * intros X. apply app_eq_nil in X. destruct X; discriminate.
+      * intros Hp. assert (Hq0 : 0 < n / 10) by (apply Z.div_str_pos; lia).
+        destruct (D Hq0) as (c & t & E & Nz). rewrite E. exists c, (t ++ [48 + n mod 10]). split; [reflexivity|assumption].
+Qed.
+
+Lemma print_nat_Z_spec n : 0 <= n ->
+  all_digits (print_nat_Z n) /\ dval (print_nat_Z n) 0 = n /\ print_nat_Z n <> [] /\
+  (0 < n -> exists c t, print_nat_Z n = c :: t /\ c <> 48).
+Proof.
+  intros Hn. unfold print_nat_Z. apply dec_digits_spec. split; auto.
+  destruct (Z.eq_dec n 0) as [->|Hz]; [simpl; lia|].
+  assert (Hp : 0 < n) by lia. pose proof (Z.log2_spec n Hp) as [_ U].
+  rewrite Nat2Z.inj_succ, Z2Nat.id by apply Z.log2_nonneg.
+  eapply Z.lt_le_trans; [exact U|]. apply Z.pow_le_mono_l. lia.
+Qed.
+
+Lemma dval_ge ds : forall res, 0 <= res -> all_digits ds -> res <= dval ds res.
+Proof.
+  induction ds; intros res Hr Hd; [unfold dval; cbn [fold_left]; lia|].
+  inversion Hd; subst. unfold dval in *. cbn [fold_left]. etransitivity; [|apply IHds; auto; lia]. lia.
+Qed.
+
+(* the digit loop on a digit string followed by a non-digit (or the end): no overflow while the value fits *)
+Lemma digits_loop_digits mx sm md ds : forall r res ovf any,
+  all_digits ds -> 0 <= res -> dval ds res <= mx -> mx < md -> sm = mx / 10 -> ds <> [] ->
+  (r = [] \/ exists c r', r = c :: r' /\ is_digit c = false) ->
+  digits_loop mx sm md (ds ++ r) res ovf any = (dval ds res, ovf, true, r).
+Proof.
+  induction ds as [|c ds IH]; intros r res ovf any Hd Hr Hv Hm Hs Hne Hrr; [congruence|].
+  inversion Hd; subst. cbn [app digits_loop].
+  assert (Dg : is_digit c = true) by (unfold is_digit; lia). rewrite Dg.
+  unfold dval in Hv. cbn [fold_left] in Hv. fold (dval ds (res * 10 + (c - 48))) in Hv.
+  pose proof (dval_ge ds (res * 10 + (c - 48)) ltac:(lia) H2) as G.
+  assert (R0 : res <= mx / 10) by (apply Z.div_le_lower_bound; lia).
+  assert (R1 : (res >? mx / 10) = false) by lia.
+  rewrite R1.
+  assert (R2 : (res * 10 >? mx - (c - 48)) = false) by lia. rewrite R2, orb_false_r.
+  assert (R3 : (res * 10 + (c - 48)) mod md = res * 10 + (c - 48)) by (apply Z.mod_small; lia). rewrite R3.
+  destruct ds as [|c2 ds2].
+  - simpl. destruct Hrr as [->|(c0 & r' & -> & Nd)]; simpl; [reflexivity|]. rewrite Nd. reflexivity.
+  - rewrite IH; auto; try lia; try discriminate; try reflexivity.
+Qed.
+
+Lemma is_digit_false_zero c : is_digit c = false -> (c =? c_zero) = false.
+Proof. unfold is_digit, c_zero. lia. Qed.
+
+(* unsigned extraction of a printed number *)
+Lemma extract_int_print w n r : 0 < w -> 0 <= n < pow2 w ->
+  (r = [] \/ exists c r', r = c :: r' /\ is_digit c = false) ->
+  extract_int w false (print_Z n ++ r) = (n, false, r).
+Proof.
+  intros Hw Hn Hr. unfold print_Z. assert (L : (n <? 0) = false) by lia. rewrite L.
+  destruct (print_nat_Z_spec n ltac:(lia)) as (A & B & C & D).
+  destruct (Z.eq_dec n 0) as [Hz|Hz].
+  - subst n. assert (E : print_nat_Z 0 = [48]) by reflexivity. rewrite E. cbn [app]. unfold extract_int.
+    replace (48 =? c_minus) with false by reflexivity. replace (48 =? c_plus) with false by reflexivity.
+    cbn [zeros_loop]. replace (48 =? c_zero) with true by reflexivity.
+    destruct Hr as [->|(c & r' & -> & Nd)].
+    + simpl. reflexivity.
+    + cbn [zeros_loop]. rewrite (is_digit_false_zero _ Nd). cbn [digits_loop]. rewrite Nd. simpl. reflexivity.
+  - destruct (D ltac:(lia)) as (c & t & E & Nz). rewrite E in *. cbn [app]. unfold extract_int.
+    inversion A; subst.
+    assert (M1 : (c =? c_minus) = false) by (unfold c_minus; lia). assert (M2 : (c =? c_plus) = false) by (unfold c_plus; lia).
+    rewrite M1, M2. cbn [zeros_loop]. assert (M3 : (c =? c_zero) = false) by (unfold c_zero; lia). rewrite M3.
+    cbn [andb]. 
+    change (c :: t ++ r) with ((c :: t) ++ r).
+    rewrite (digits_loop_digits (pow2 w - 1) ((pow2 w - 1) / 10) (pow2 w) (c :: t) r 0 false false); auto; try lia; try discriminate.
+    all: try (rewrite B; cbn [negb andb]; reflexivity).
+Qed.
+
+(* ------------------------------------------------------------------ lines *)
+
+Definition st (l : list byte) : istream := mk l false false.
+
+Lemma take_line_app l r : ~ In c_nl l -> take_line (l ++ c_nl :: r) = (l, Some r).
+Proof.
+  induction l; intros H; simpl.
+  - replace (c_nl =? c_nl) with true by reflexivity. reflexivity.
+  - assert (a <> c_nl) by (intros ->; apply H; left; reflexivity).
+    assert (E : (a =? c_nl) = false) by lia. rewrite E. rewrite IHl; [reflexivity|]. intros X; apply H; right; exact X.
+Qed.
+
+Lemma getline_line l r : ~ In c_nl l -> getline (st (l ++ c_nl :: r)) = (st r, Some l).
+Proof. intros H. unfold getline, st, sentry; simpl. rewrite take_line_app; auto. Qed.
+
+Definition nows (t : list byte) : Prop := Forall (fun c => isspace c = false) t.
+Definition tokp (t : list byte) : Prop := t <> [] /\ nows t.
+
+Lemma isspace_trim c : isspace c = false -> is_trim c = false.
+Proof. unfold isspace, is_trim. lia. Qed.
+
+Lemma drop_trim_tok t r : tokp t -> drop_trim (t ++ r) = t ++ r.
+Proof.
+  intros [Hne Hw]. destruct t as [|c t]; [congruence|]. inversion Hw; subst. simpl. rewrite (isspace_trim _ H1). reflexivity.
+Qed.
+
+(* a clean line: what getCleanLine hands back unchanged *)
+Definition clean (l : list byte) : Prop :=
+  ~ In c_nl l /\ (exists c t, l = c :: t /\ is_trim c = false /\ c <> 35) /\ (exists t c, l = t ++ [c] /\ is_trim c = false).
+
+Lemma trim_clean l : clean l -> trim l = l.
+Proof.
+  intros (_ & (c & t & E & Tc & _) & (t2 & c2 & E2 & Tc2)). unfold trim.
+  assert (D1 : drop_trim l = l) by (rewrite E; simpl; rewrite Tc; reflexivity). rewrite D1.
+  rewrite (rev_append_rev l), app_nil_r.
+  assert (D2 : drop_trim (rev l) = rev l) by (rewrite E2, rev_app_distr; simpl; rewrite Tc2; reflexivity).
+  rewrite D2. rewrite rev_append_rev, app_nil_r. apply rev_involutive.
+Qed.
+
+Lemma gcl_clean fuel l r line0 : clean l -> get_clean_line (S fuel) (st (l ++ c_nl :: r)) line0 = Some (st r, l, true).
+Proof.
+  intros C. pose proof (trim_clean l C) as T. destruct C as (Nn & (c & t & E & Tc & Nh) & _).
+  cbn [get_clean_line]. rewrite getline_line; auto. rewrite T. rewrite E.
+  assert (X : (c =? 35) = false) by lia. rewrite X. reflexivity.
+Qed.
+
+(* tokens joined by single blanks *)
+Fixpoint tail_sp (ts : list (list byte)) : list byte :=
+  match ts with [] => [] | t :: r => 32 :: t ++ tail_sp r end.
+
+Lemma join_sp_tail t ts : join_sp (t :: ts) = t ++ tail_sp ts.
+Proof.
+  revert t. induction ts as [|t2 ts IH]; intros t; simpl.
+  - rewrite app_nil_r. reflexivity.
+  - f_equal. unfold sp. simpl. f_equal. apply IH.
+Qed.
+
+Lemma nows_not_nl t : nows t -> ~ In c_nl t.
+Proof. intros H X. unfold nows in H. rewrite Forall_forall in H. specialize (H _ X). discriminate H. Qed.
+
+Lemma tail_sp_no_nl ts : Forall tokp ts -> ~ In c_nl (tail_sp ts).
+Proof.
+  induction 1; simpl; [tauto|]. intros [X|X]; [discriminate X|]. apply in_app_or in X. destruct X as [X|X]; [|tauto].
+  destruct H as [_ Hw]. eapply nows_not_nl; eauto.
+Qed.
+
+Lemma tok_last t : tokp t -> exists t' c, t = t' ++ [c] /\ isspace c = false.
+Proof.
+  intros [Hne Hw]. destruct (exists_last Hne) as (t' & c & E). exists t', c. split; auto.
+  unfold nows in Hw. rewrite Forall_forall in Hw. apply Hw. rewrite E. apply in_or_app. right; left; reflexivity.
+Qed.
+
+Lemma tail_sp_last ts : Forall tokp ts -> ts <> [] -> exists t' c, tail_sp ts = t' ++ [c] /\ isspace c = false.
+Proof.
+  induction 1; intros Hne; [congruence|]. simpl. destruct l as [|t2 l].
+  - simpl. destruct (tok_last _ H) as (t' & c & E & Hc). exists (32 :: t'), c. rewrite E, app_nil_r. split; auto.
+  - destruct (IHForall ltac:(discriminate)) as (t' & c & E & Hc). exists (32 :: x ++ t'), c. rewrite E. rewrite app_assoc. split; auto.
+Qed.
+
+Lemma clean_join t ts : tokp t -> Forall tokp ts -> hd 0 t <> 35 -> clean (join_sp (t :: ts)).
+Proof.
+  intros Ht Hts Hh. rewrite join_sp_tail. split; [|split].
+  - intros X. apply in_app_or in X. destruct X as [X|X]; [eapply nows_not_nl; [apply Ht|exact X] | eapply tail_sp_no_nl; eauto].
+  - destruct Ht as [Hne Hw]. destruct t as [|c t']; [congruence|]. inversion Hw; subst.
+    exists c, (t' ++ tail_sp ts). split; [reflexivity|]. split; [apply isspace_trim; auto | exact Hh].
+  - destruct ts as [|t2 ts'].
+    + simpl. rewrite app_nil_r. destruct (tok_last _ Ht) as (t' & c & E & Hc). exists t', c. split; auto. apply isspace_trim; auto.
+    + destruct (tail_sp_last (t2 :: ts') Hts ltac:(discriminate)) as (t' & c & E & Hc). exists (t ++ t'), c. rewrite E, app_assoc. split; auto. apply isspace_trim; auto.
+Qed.
+
+(* printed numbers are tokens *)
+Lemma digits_nows ds : all_digits ds -> nows ds.
+Proof. unfold all_digits, nows. apply Forall_impl. intros c H. unfold isspace. lia. Qed.
+
+Lemma zn_tok n : tokp (zn n) /\ hd 0 (zn n) <> 35 /\ all_digits (zn n).
+Proof.
+  unfold zn, print_Z. assert (L : (Z.of_nat n <? 0) = false) by lia. rewrite L.
+  destruct (print_nat_Z_spec (Z.of_nat n) ltac:(lia)) as (A & B & C & D).
+  split; [split; [exact C | apply digits_nows; exact A]|]. split; auto.
+  destruct (print_nat_Z (Z.of_nat n)) as [|c t]; [congruence|]. inversion A; subst. simpl. lia.
+Qed.
+
+(* ------------------------------------------------------------------ reading printed numbers back from a line *)
+
+Definition endsp (r : list byte) : Prop := r = [] \/ exists r', r = 32 :: r'.
+
+Lemma endsp_nondigit r : endsp r -> r = [] \/ exists c r', r = c :: r' /\ is_digit c = false.
+Proof. intros [->|(r' & ->)]; [left; reflexivity | right; exists 32, r'; split; reflexivity]. Qed.
+
+Lemma skipws_tok t r : tokp t -> skipws (t ++ r) = t ++ r.
+Proof. intros [Hne Hw]. destruct t as [|c t]; [congruence|]. inversion Hw; subst. simpl. rewrite H1. reflexivity. Qed.
+
+Lemma tok_app_nonnil t r : tokp t -> exists c l, t ++ r = c :: l.
+Proof. intros [Hne _]. destruct t as [|c t]; [congruence|]. exists c, (t ++ r). reflexivity. Qed.
+
+Lemma print_Z_tok n : 0 <= n -> tokp (print_Z n).
+Proof.
+  intros Hn. unfold print_Z. assert (L : (n <? 0) = false) by lia. rewrite L.
+  destruct (print_nat_Z_spec n Hn) as (A & B & C & D). split; [exact C | apply digits_nows; exact A].
+Qed.
+
+Definition uty (t : numty) (w : Z) : Prop := (t = NU32 /\ w = 32) \/ (t = NU64 /\ w = 64).
+
+Lemma parse_num_uty t w l : uty t w -> parse_num t l = extract_int w false l.
+Proof. intros [[-> ->]|[-> ->]]; reflexivity. Qed.
+
+Lemma get_num_print t w n r (lead : bool) : uty t w -> 0 <= n < pow2 w -> endsp r ->
+  get_num t (st ((if lead then [32] else []) ++ print_Z n ++ r)) = (mk r (is_nil r) false, Some n).
+Proof.
+  intros Ht Hn Hr. pose proof (print_Z_tok n ltac:(lia)) as Tk.
+  assert (Hw : 0 < w) by (destruct Ht as [[_ ->]|[_ ->]]; lia).
+  unfold get_num, sentry, st. cbn [good mk eofb failb negb andb rest].
+  assert (S : skipws ((if lead then [32] else []) ++ print_Z n ++ r) = print_Z n ++ r).
+  { destruct lead; cbn [app]; [cbn [skipws]; replace (isspace 32) with true by reflexivity|]; apply skipws_tok; auto. }
+  rewrite S. destruct (tok_app_nonnil (print_Z n) r Tk) as (c & l & E). rewrite E. rewrite <- E.
+  cbn [rest mk]. rewrite (parse_num_uty t w _ Ht). rewrite extract_int_print; auto. apply endsp_nondigit; auto.
+Qed.
+
+Lemma get_num_print_sp t w n r : uty t w -> 0 <= n < pow2 w -> endsp r ->
+  get_num t (st (32 :: print_Z n ++ r)) = (mk r (is_nil r) false, Some n).
+Proof. intros. exact (get_num_print t w n r true H H0 H1). Qed.
+Lemma get_num_print_0 t w n r : uty t w -> 0 <= n < pow2 w -> endsp r ->
+  get_num t (st (print_Z n ++ r)) = (mk r (is_nil r) false, Some n).
+Proof. intros. exact (get_num_print t w n r false H H0 H1). Qed.
+
+Lemma valz_some v d : valz (Some v) d = v. Proof. reflexivity. Qed.
+
+Lemma tail_sp_endsp ts : endsp (tail_sp ts).
+Proof. destruct ts; [left; reflexivity | right; eexists; reflexivity]. Qed.
+
+Lemma zn_print h : zn h = print_Z (Z.of_nat h).
+Proof. reflexivity. Qed.
+
+(* "h1 h2 ... hk" after the valence: handle_loop reads exactly the k handles *)
+Lemma handle_loop_print limit : forall (l : list nat),
+  Forall (fun h => Z.of_nat h < limit) l -> limit <= 2147483648 ->
+  handle_loop (length l) limit (mk (tail_sp (map zn l)) (is_nil (tail_sp (map zn l))) false) = inl (Some l).
+Proof.
+  induction l as [|h l IH]; intros Hb Hl; [reflexivity|].
+  inversion Hb; subst. cbn [length handle_loop map tail_sp is_nil].
+  change (mk (32 :: zn h ++ tail_sp (map zn l)) false false) with (st (32 :: print_Z (Z.of_nat h) ++ tail_sp (map zn l))).
+  rewrite (get_num_print_sp NU32 32 (Z.of_nat h) (tail_sp (map zn l))); [|left; split; reflexivity|unfold pow2; lia|apply tail_sp_endsp].
+  rewrite valz_some.
+  assert (C1 : (Z.of_nat h >=? limit) = false) by lia. rewrite C1.
+  assert (C2 : (Z.of_nat h >? int_max_z) = false) by (unfold int_max_z; lia). rewrite C2.
+  rewrite IH; auto. rewrite Nat2Z.id. reflexivity.
+Qed.
+
+(* ------------------------------------------------------------------ words and keywords *)
+
+Lemma take_word_tok t : forall r, nows t -> endsp r -> take_word (t ++ r) = (t, r).
+Proof.
+  induction t as [|c t IH]; intros r Hw Hr.
+  - simpl. destruct Hr as [->|(r' & ->)]; reflexivity.
+  - inversion Hw; subst. simpl. rewrite H1. rewrite IH; auto.
+Qed.
+
+Lemma get_word_tok_0 t r : tokp t -> endsp r -> get_word (st (t ++ r)) = (mk r (is_nil r) false, Some t).
+Proof.
+  intros Tk Hr. unfold get_word, sentry, st. cbn [good mk eofb failb negb andb rest].
+  rewrite skipws_tok; auto. destruct (tok_app_nonnil t r Tk) as (c & l & E). rewrite E, <- E. cbn [rest mk].
+  rewrite take_word_tok; auto; [|apply Tk]. destruct Tk as [Hne _]. destruct t; [congruence|reflexivity].
+Qed.
+
+Lemma get_word_tok_sp t r : tokp t -> endsp r -> get_word (st (32 :: t ++ r)) = (mk r (is_nil r) false, Some t).
+Proof.
+  intros Tk Hr. unfold get_word, sentry, st. cbn [good mk eofb failb negb andb rest skipws].
+  replace (isspace 32) with true by reflexivity.
+  rewrite skipws_tok; auto. destruct (tok_app_nonnil t r Tk) as (c & l & E). rewrite E, <- E. cbn [rest mk].
+  rewrite take_word_tok; auto; [|apply Tk]. destruct Tk as [Hne _]. destruct t; [congruence|reflexivity].
+Qed.
+
+Ltac tok_closed := split; [discriminate | repeat constructor].
+
+Lemma kw_tok (kw : string) : forallb (fun c => negb (isspace c)) (bs kw) = true -> bs kw <> [] -> tokp (bs kw).
+Proof.
+  intros H Hne. split; auto. unfold nows. rewrite forallb_forall in H. rewrite Forall_forall. intros c Hc.
+  specialize (H c Hc). destruct (isspace c); [discriminate|reflexivity].
+Qed.
+
+(* ------------------------------------------------------------------ floating point: what is assumed of print_d / conv_d *)
+
+Section RoundTrip.
+  Variable conv_d : list byte -> Z * bool.
+  Variable conv_f : list byte -> Z * bool.
+  Variable print_d : Z -> list byte.
+  Variable print_f : Z -> list byte.
+  (* the values for which the number printer produces a numeral (finite values) *)
+  Variable okf : Z -> Prop.
+
+  (* the printed numeral is one token, and the scanner of num_get accepts exactly it *)
+  Hypothesis print_tok : forall b, okf b -> tokp (print_d b) /\ hd 0 (print_d b) <> 35.
+  Hypothesis print_scan : forall b r, okf b -> endsp r -> float_scan (print_d b ++ r) = (print_d b, r).
+  (* converting it does not set failbit *)
+  Hypothesis print_conv : forall b, okf b -> snd (conv_d (print_d b)) = false.
+
+  Definition reparse (b : Z) : Z := fst (conv_d (print_d b)).
+
+  Lemma get_float_print_0 b r : okf b -> endsp r ->
+    get_float conv_d (st (print_d b ++ r)) = (mk r (is_nil r) false, Some (reparse b)).
+  Proof.
+    intros Hb Hr. destruct (print_tok b Hb) as [Tk _].
+    unfold get_float, parse_float, sentry, st. cbn [good mk eofb failb negb andb rest].
+    rewrite skipws_tok; auto. destruct (tok_app_nonnil (print_d b) r Tk) as (c & l & E). rewrite E, <- E. cbn [rest mk].
+    rewrite print_scan; auto. unfold reparse. pose proof (print_conv b Hb) as F. destruct (conv_d (print_d b)) as [v f]. simpl in *. subst f. reflexivity.
+  Qed.
+
+  Lemma get_float_print_sp b r : okf b -> endsp r ->
+    get_float conv_d (st (32 :: print_d b ++ r)) = (mk r (is_nil r) false, Some (reparse b)).
+  Proof.
+    intros Hb Hr. destruct (print_tok b Hb) as [Tk _].
+    unfold get_float, parse_float, sentry, st. cbn [good mk eofb failb negb andb rest skipws].
+    replace (isspace 32) with true by reflexivity.
+    rewrite skipws_tok; auto. destruct (tok_app_nonnil (print_d b) r Tk) as (c & l & E). rewrite E, <- E. cbn [rest mk].
+    rewrite print_scan; auto. unfold reparse. pose proof (print_conv b Hb) as F. destruct (conv_d (print_d b)) as [v f]. simpl in *. subst f. reflexivity.
+  Qed.
+
+  (* ------------------------------------------------------------------ one line at a time *)
+
+  Lemma gcl_at d l R : clean l -> d_is d = st (l ++ c_nl :: R) -> gcl d = Go (with_line d (st R) l).
+  Proof. intros C H. unfold gcl. rewrite H. unfold gcl_fuel. rewrite gcl_clean; auto. Qed.
+
+  Lemma clean_tok t : tokp t -> hd 0 t <> 35 -> clean t.
+  Proof. intros Tk Hh. pose proof (clean_join t [] Tk (Forall_nil _) Hh) as C. simpl in C. exact C. Qed.
+
+  Lemma read_count_at d n R : Z.of_nat n < pow2 64 -> d_is d = st (zn n ++ c_nl :: R) ->
+    read_count d = Go (with_line d (st R) (zn n), Z.of_nat n).
+  Proof.
+    intros Hn H. destruct (zn_tok n) as (Tk & Hh & _). unfold read_count. rewrite (gcl_at d (zn n) R); auto using clean_tok.
+    cbn [bind with_line d_line]. unfold sstr_of, of_bytes. fold (st (zn n)).
+    rewrite <- (app_nil_r (zn n)) at 1. rewrite zn_print.
+    rewrite (get_num_print_0 NU64 64); [reflexivity | right; split; reflexivity | lia | left; reflexivity].
+  Qed.
+
+  (* a section keyword line as the writer prints it: `kw` is the printed keyword, `KW` its upper-case form *)
+  Lemma section_header_at (kw KW : string) d R :
+    tokp (bs kw) -> hd 0 (bs kw) <> 35 -> upper (bs kw) = bs KW -> d_is d = st (bs kw ++ c_nl :: R) ->
+    section_header KW d = Go (with_stmp (with_line d (st R) (bs kw)) (bs KW)).
+  Proof.
+    intros Tk Hh Hu H. unfold section_header. rewrite (gcl_at d (bs kw) R); auto using clean_tok.
+    cbn [bind with_line d_line]. unfold read_keyword, sstr_of, of_bytes. fold (st (bs kw)).
+    rewrite <- (app_nil_r (bs kw)) at 1. rewrite get_word_tok_0; [|auto|left; reflexivity].
+    rewrite Hu. cbn [with_stmp d_stmp]. assert (E : bytes_eqb (bs KW) (bs KW) = true).
+    { clear. induction (bs KW); simpl; auto. rewrite Z.eqb_refl. exact IHl. }
+    rewrite E. reflexivity.
+  Qed.
+
+  (* ------------------------------------------------------------------ the four entity loops on the writer's lines *)
+
+  Definition vline (p : Z * Z * Z) : list byte :=
+    let '(x, y, z) := p in print_d x ++ sp ++ print_d y ++ sp ++ print_d z ++ nl.
+  Definition okp (p : Z * Z * Z) : Prop := let '(x, y, z) := p in okf x /\ okf y /\ okf z.
+  Definition rp3 (p : Z * Z * Z) : aval := let '(x, y, z) := p in VList [VFlt (reparse x); VFlt (reparse y); VFlt (reparse z)].
+
+  Lemma vertex_loop_print : forall ps d R, Forall okp ps -> d_is d = st (concat (map vline ps) ++ R) ->
+    exists d', vertex_loop conv_d (length ps) d = Go d' /\ d_is d' = st R /\
+      nv (d_m d') = (nv (d_m d) + length ps)%nat /\ edges (d_m d') = edges (d_m d) /\ faces (d_m d') = faces (d_m d) /\ cells (d_m d') = cells (d_m d) /\
+      d_pos d' = rev (map rp3 ps) ++ d_pos d /\ d_stmp d' = d_stmp d.
+  Proof.
+    induction ps as [|[[x y] z] ps IH]; intros d R Hok H.
+    - exists d. simpl in *. repeat split; auto; try lia.
+    - inversion Hok as [|? ? Hp Hok']; subst. unfold okp in Hp. destruct Hp as (Hx & Hy & Hz).
+      destruct (print_tok x Hx) as [Tx Hhx]. destruct (print_tok y Hy) as [Ty _]. destruct (print_tok z Hz) as [Tz _].
+      cbn [length vertex_loop map concat] in *.
+      set (l := join_sp [print_d x; print_d y; print_d z]).
+      assert (Cl : clean l) by (apply clean_join; auto).
+      assert (El : vline (x, y, z) ++ concat (map vline ps) ++ R = l ++ c_nl :: concat (map vline ps) ++ R).
+      { unfold vline, l, join_sp, sp, nl, c_nl. repeat (first [rewrite <- app_assoc | progress cbn [app]]). reflexivity. }
+      rewrite <- app_assoc in H. rewrite El in H.
+      rewrite (gcl_at d l _ Cl H). cbn [bind with_line d_line d_v d_m d_is d_stmp d_pos].
+      unfold sstr_of, of_bytes. fold (st l).
+      assert (L1 : l = print_d x ++ 32 :: print_d y ++ 32 :: print_d z ++ []).
+      { unfold l, sp. simpl. rewrite app_nil_r. reflexivity. }
+      rewrite L1.
+      rewrite get_float_print_0; [|auto|right; eexists; reflexivity]. cbn [is_nil]. fold (st (32 :: print_d y ++ 32 :: print_d z ++ [])).
+      rewrite get_float_print_sp; [|auto|right; eexists; reflexivity]. cbn [is_nil]. fold (st (32 :: print_d z ++ [])).
+      rewrite get_float_print_sp; [|auto|left; reflexivity].
+      destruct (d_v d) as [[vx vy] vz]. cbn [valz fst snd].
+      pose proof (add_vertex_topo (d_m d)) as T. destruct (add_vertex (d_m d)) as [m1 vh]. destruct T as (T1 & T2 & T3 & T4).
+      match goal with |- exists d', vertex_loop _ _ ?d2 = _ /\ _ => destruct (IH d2 R Hok' eq_refl) as (d' & E & A1 & A2 & A3 & A4 & A5 & A6 & A7) end.
+      exists d'. split; [exact E|]. cbn [d_m d_pos d_stmp] in *. rewrite A2, A3, A4, A5, A6, A7, T1, T2, T3, T4.
+      repeat split; auto; try lia. cbn [map rev rp3]. rewrite <- app_assoc. reflexivity.
+  Qed.
+
+  Definition eline (e : nat * nat) : list byte := zn (fst e) ++ sp ++ zn (snd e) ++ nl.
+
+  Lemma edge_loop_print nvd : forall es d R,
+    Forall (fun e => Z.of_nat (fst e) < nvd /\ Z.of_nat (snd e) < nvd) es -> nvd <= 2147483648 ->
+    d_is d = st (concat (map eline es) ++ R) ->
+    exists d', edge_loop (length es) nvd d = Go d' /\ d_is d' = st R /\
+      nv (d_m d') = nv (d_m d) /\ edges (d_m d') = edges (d_m d) ++ es /\ faces (d_m d') = faces (d_m d) /\ cells (d_m d') = cells (d_m d) /\
+      d_pos d' = d_pos d /\ d_stmp d' = d_stmp d.
+  Proof.
+    induction es as [|[a b] es IH]; intros d R Hb Hn H.
+    - exists d. simpl in *. rewrite app_nil_r. repeat split; auto.
+    - inversion Hb as [|? ? Hp Hb']; subst. cbn [fst snd] in Hp. destruct Hp as [Ha Hbb].
+      destruct (zn_tok a) as (Ta & Hha & _). destruct (zn_tok b) as (Tb & _ & _).
+      cbn [length edge_loop map concat] in *.
+      set (l := join_sp [zn a; zn b]).
+      assert (Cl : clean l) by (apply clean_join; auto).
+      assert (El : eline (a, b) ++ concat (map eline es) ++ R = l ++ c_nl :: concat (map eline es) ++ R).
+      { unfold eline, l, join_sp, sp, nl, c_nl. cbn [fst snd]. repeat (first [rewrite <- app_assoc | progress cbn [app]]). reflexivity. }
+      rewrite <- app_assoc in H. rewrite El in H.
+      rewrite (gcl_at d l _ Cl H). cbn [bind with_line d_line d_v d_m d_is d_stmp d_pos].
+      unfold sstr_of, of_bytes. fold (st l).
+      assert (L1 : l = print_Z (Z.of_nat a) ++ 32 :: print_Z (Z.of_nat b) ++ []).
+      { unfold l, sp. simpl. rewrite app_nil_r. reflexivity. }
+      rewrite L1.
+      rewrite (get_num_print_0 NU32 32); [|left; split; reflexivity|unfold pow2; lia|right; eexists; reflexivity].
+      cbn [is_nil]. fold (st (32 :: print_Z (Z.of_nat b) ++ [])).
+      rewrite (get_num_print_sp NU32 32); [|left; split; reflexivity|unfold pow2; lia|left; reflexivity].
+      rewrite !valz_some.
+      assert (C1 : (Z.of_nat a >=? nvd) || (Z.of_nat b >=? nvd) = false) by lia. rewrite C1.
+      assert (C2 : (Z.of_nat a >? int_max_z) || (Z.of_nat b >? int_max_z) = false) by (unfold int_max_z; lia). rewrite C2.
+      rewrite !Nat2Z.id.
+      pose proof (add_edge_dup_topo (d_m d) a b) as T. destruct (add_edge (d_m d) a b true) as [m1 eh]. destruct T as (T1 & T2 & T3 & T4).
+      match goal with |- exists d', edge_loop _ _ ?d2 = _ /\ _ => destruct (IH d2 R Hb' Hn eq_refl) as (d' & E & A1 & A2 & A3 & A4 & A5 & A6 & A7) end.
+      exists d'. split; [exact E|]. cbn [d_m d_pos d_stmp with_mesh] in *. rewrite A2, A3, A4, A5, A6, A7, T1, T2, T3, T4.
+      repeat split; auto. rewrite <- app_assoc. reflexivity.
+  Qed.
+
+  Lemma entity_line_shape l : l <> [] -> entity_line l = join_sp (zn (length l) :: map zn l) ++ nl.
+  Proof.
+    intros Hne. destruct l as [|h t]; [congruence|]. unfold entity_line, nat_line. cbn [map join_sp].
+    repeat (first [rewrite <- app_assoc | progress cbn [app]]). reflexivity.
+  Qed.
+
+  Lemma read_handles_print o isf limit d (l : list nat) :
+    d_line d = join_sp (zn (length l) :: map zn l) -> l <> [] ->
+    Forall (fun h => Z.of_nat h < limit) l -> limit <= 2147483648 ->
+    Z.of_nat (length l) * 4 <= o_alloc o -> Z.of_nat (length l) < 4294967296 ->
+    read_handles o isf limit d = Go l.
+  Proof.
+    intros Hl Hne Hb Hlim Ha Hk. unfold read_handles. rewrite Hl, join_sp_tail. unfold sstr_of, of_bytes.
+    fold (st (zn (length l) ++ tail_sp (map zn l))). rewrite zn_print.
+    rewrite (get_num_print_0 NU64 64); [|right; split; reflexivity|unfold pow2; lia|apply tail_sp_endsp].
+    rewrite valz_some.
+    assert (K1 : 0 < Z.of_nat (length l)) by (destruct l; [congruence|simpl; lia]).
+    assert (Z0 : (Z.of_nat (length l) =? 0) = false) by lia. rewrite Z0, andb_false_r.
+    unfold alloc. assert (P1 : (Z.of_nat (length l) >? ptrdiff_max / 4) = false).
+    { change (ptrdiff_max / 4) with 2305843009213693951. lia. }
+    rewrite P1. assert (P2 : (Z.of_nat (length l) * 4 >? o_alloc o) = false) by lia. rewrite P2. cbn [bind].
+    assert (P3 : (Z.of_nat (length l) <? two32) = true) by (unfold two32; lia). rewrite P3.
+    rewrite Nat2Z.id. rewrite handle_loop_print; auto.
+  Qed.
+
+  Lemma add_face_nocheck m hes : exists m1 f, add_face m hes false = (m1, Some f).
+  Proof. unfold add_face. cbn [andb]. destruct (append_face m hes) as [m1 f]. eauto. Qed.
+  Lemma add_cell_nocheck m hfs : exists m1 c, add_cell m hfs false = (m1, Some c).
+  Proof. unfold add_cell. cbn [andb]. destruct (append_cell m hfs) as [m1 c]. eauto. Qed.
+
+  Definition ent_ok (o : opts) (limit : Z) (l : list nat) : Prop :=
+    l <> [] /\ Forall (fun h => Z.of_nat h < limit) l /\ Z.of_nat (length l) * 4 <= o_alloc o /\ Z.of_nat (length l) < 4294967296.
+
+  Lemma face_loop_print o nhe : o_mesh o = MPoly -> o_check o = false -> nhe <= 2147483648 -> forall fs d R,
+    Forall (ent_ok o nhe) fs -> d_is d = st (concat (map entity_line fs) ++ R) ->
+    exists d', face_loop (length fs) o nhe d = Go d' /\ d_is d' = st R /\
+      nv (d_m d') = nv (d_m d) /\ edges (d_m d') = edges (d_m d) /\ faces (d_m d') = faces (d_m d) ++ fs /\ cells (d_m d') = cells (d_m d) /\
+      d_pos d' = d_pos d /\ d_stmp d' = d_stmp d.
+  Proof.
+    intros Hm Hc Hn. induction fs as [|f fs IH]; intros d R Hb H.
+    - exists d. simpl in *. rewrite app_nil_r. repeat split; auto.
+    - inversion Hb as [|? ? Hp Hb']; subst. destruct Hp as (Hne & Hbd & Hal & Hk).
+      cbn [length face_loop map concat] in *.
+      set (l := join_sp (zn (length f) :: map zn f)).
+      assert (Cl : clean l).
+      { destruct (zn_tok (length f)) as (Tk & Hh & _). apply clean_join; auto.
+        clear. induction f; simpl; constructor; auto. apply zn_tok. }
+      rewrite (entity_line_shape f Hne) in H. fold l in H.
+      assert (El : (l ++ nl) ++ concat (map entity_line fs) ++ R = l ++ c_nl :: concat (map entity_line fs) ++ R).
+      { unfold nl, c_nl. rewrite <- app_assoc. reflexivity. }
+      rewrite <- app_assoc in H. rewrite El in H.
+      rewrite (gcl_at d l _ Cl H). cbn [bind].
+      rewrite (read_handles_print o true nhe _ f); auto. cbn [bind with_line d_m].
+      unfold m_add_face. rewrite Hm, Hc. destruct (add_face_nocheck (d_m d) f) as (m1 & fh & E). rewrite E.
+      apply add_face_some_topo in E. destruct E as (T1 & T2 & T3 & T4).
+      match goal with |- exists d', face_loop _ _ _ ?d2 = _ /\ _ => destruct (IH d2 R Hb' eq_refl) as (d' & E & A1 & A2 & A3 & A4 & A5 & A6 & A7) end.
+      exists d'. split; [exact E|]. cbn [d_m d_pos d_stmp with_mesh with_line] in *. rewrite A2, A3, A4, A5, A6, A7, T1, T2, T3, T4.
+      repeat split; auto. rewrite <- app_assoc. reflexivity.
+  Qed.
+
+  Lemma cell_loop_print o nhf : o_mesh o = MPoly -> o_check o = false -> nhf <= 2147483648 -> forall cs d R,
+    Forall (ent_ok o nhf) cs -> d_is d = st (concat (map entity_line cs) ++ R) ->
+    exists d', cell_loop (length cs) o nhf d = Go d' /\ d_is d' = st R /\
+      nv (d_m d') = nv (d_m d) /\ edges (d_m d') = edges (d_m d) /\ faces (d_m d') = faces (d_m d) /\ cells (d_m d') = cells (d_m d) ++ cs /\
+      d_pos d' = d_pos d /\ d_stmp d' = d_stmp d.
+  Proof.
+    intros Hm Hc Hn. induction cs as [|c cs IH]; intros d R Hb H.
+    - exists d. simpl in *. rewrite app_nil_r. repeat split; auto.
+    - inversion Hb as [|? ? Hp Hb']; subst. destruct Hp as (Hne & Hbd & Hal & Hk).
+      cbn [length cell_loop map concat] in *.
+      set (l := join_sp (zn (length c) :: map zn c)).
+      assert (Cl : clean l).
+      { destruct (zn_tok (length c)) as (Tk & Hh & _). apply clean_join; auto.
+        clear. induction c; simpl; constructor; auto. apply zn_tok. }
+      rewrite (entity_line_shape c Hne) in H. fold l in H.
+      assert (El : (l ++ nl) ++ concat (map entity_line cs) ++ R = l ++ c_nl :: concat (map entity_line cs) ++ R).
+      { unfold nl, c_nl. rewrite <- app_assoc. reflexivity. }
+      rewrite <- app_assoc in H. rewrite El in H.
+      rewrite (gcl_at d l _ Cl H). cbn [bind].
+      rewrite (read_handles_print o false nhf _ c); auto. cbn [bind with_line d_m].
+      unfold m_add_cell. rewrite Hm, Hc. destruct (add_cell_nocheck (d_m d) c) as (m1 & ch & E). rewrite E.
+      apply add_cell_some_topo in E. destruct E as (T1 & T2 & T3 & T4).
+      match goal with |- exists d', cell_loop _ _ _ ?d2 = _ /\ _ => destruct (IH d2 R Hb' eq_refl) as (d' & E & A1 & A2 & A3 & A4 & A5 & A6 & A7) end.
+      exists d'. split; [exact E|]. cbn [d_m d_pos d_stmp with_mesh with_line] in *. rewrite A2, A3, A4, A5, A6, A7, T1, T2, T3, T4.
+      repeat split; auto. rewrite <- app_assoc. reflexivity.
+  Qed.
+
+  (* ------------------------------------------------------------------ the writer's text, section by section *)
+
+  Lemma map_nth_seq {A B} (f : A -> B) (d : A) (l : list A) : map (fun i => f (nth i l d)) (seq 0 (length l)) = map f l.
+  Proof.
+    induction l as [|x l IH] using rev_ind; [reflexivity|].
+    rewrite app_length. simpl. rewrite Nat.add_1_r, seq_S, !map_app. simpl. f_equal.
+    - rewrite <- IH. apply map_ext_in. intros i Hi. apply in_seq in Hi. rewrite app_nth1 by lia. reflexivity.
+    - rewrite app_nth2 by lia. rewrite Nat.sub_diag. reflexivity.
+  Qed.
+
+  (* the meshes the partial round-trip theorem speaks about *)
+  Record wfw (o : opts) (w : wmesh) : Prop := {
+    wf_poly : o_mesh o = MPoly;
+    wf_nocheck : o_check o = false;
+    wf_live_v : live_vertices (w_mesh w) = seq 0 (nv (w_mesh w));          (* no pending deletions *)
+    wf_live_e : live_edges (w_mesh w) = seq 0 (ne (w_mesh w));
+    wf_live_f : live_faces (w_mesh w) = seq 0 (nf (w_mesh w));
+    wf_live_c : live_cells (w_mesh w) = seq 0 (nc (w_mesh w));
+    wf_pos_len : length (w_pos w) = nv (w_mesh w);
+    wf_pos_ok : Forall okp (w_pos w);                                       (* finite coordinates *)
+    wf_noprops : w_props w = [];                                            (* partial: topology and positions *)
+    wf_nv : Z.of_nat (nv (w_mesh w)) <= 2147483648 /\ Z.of_nat (nv (w_mesh w)) * 24 <= o_alloc o;
+    wf_ne : Z.of_nat (2 * ne (w_mesh w)) <= 2147483648 /\ Z.of_nat (ne (w_mesh w)) * 8 <= o_alloc o;
+    wf_nf : Z.of_nat (2 * nf (w_mesh w)) <= 2147483648 /\ Z.of_nat (nf (w_mesh w)) * 24 <= o_alloc o;
+    wf_nc : Z.of_nat (nc (w_mesh w)) <= 2147483648 /\ Z.of_nat (nc (w_mesh w)) * 24 <= o_alloc o;
+    wf_edges : Forall (fun e => Z.of_nat (fst e) < Z.of_nat (nv (w_mesh w)) /\ Z.of_nat (snd e) < Z.of_nat (nv (w_mesh w))) (edges (w_mesh w));
+    wf_faces : Forall (ent_ok o (Z.of_nat (2 * ne (w_mesh w)))) (faces (w_mesh w));   (* valence >= 1, handles in range *)
+    wf_cells : Forall (ent_ok o (Z.of_nat (2 * nf (w_mesh w)))) (cells (w_mesh w))
+  }.
+
+  Definition text_cells (m : mesh) : list byte :=
+    bs "Polyhedra" ++ c_nl :: zn (nc m) ++ c_nl :: concat (map entity_line (cells m)) ++ [].
+  Definition text_faces (m : mesh) : list byte :=
+    bs "Faces" ++ c_nl :: zn (nf m) ++ c_nl :: concat (map entity_line (faces m)) ++ text_cells m.
+  Definition text_edges (m : mesh) : list byte :=
+    bs "Edges" ++ c_nl :: zn (ne m) ++ c_nl :: concat (map eline (edges m)) ++ text_faces m.
+  Definition text_vertices (w : wmesh) : list byte :=
+    bs "Vertices" ++ c_nl :: zn (nv (w_mesh w)) ++ c_nl :: concat (map vline (w_pos w)) ++ text_edges (w_mesh w).
+
+  Lemma write_ascii_shape o w : wfw o w ->
+    write_ascii print_d print_f w = join_sp [bs "OVM"; bs "ASCII"] ++ c_nl :: text_vertices w.
+  Proof.
+    intros W. unfold write_ascii. rewrite (wf_live_v o w W), (wf_live_e o w W), (wf_live_f o w W), (wf_live_c o w W), (wf_noprops o w W).
+    assert (EV : map (fun v => let '(x, y, z) := pos_at w v in print_d x ++ sp ++ print_d y ++ sp ++ print_d z ++ nl) (seq 0 (nv (w_mesh w)))
+                 = map vline (w_pos w)).
+    { rewrite <- (wf_pos_len o w W). unfold pos_at. exact (map_nth_seq vline (0, 0, 0) (w_pos w)). }
+    rewrite EV.
+    assert (EE : map (fun e => let '(a, b) := edge_at (w_mesh w) e in zn a ++ sp ++ zn b ++ nl) (seq 0 (ne (w_mesh w))) = map eline (edges (w_mesh w))).
+    { unfold ne, edge_at. rewrite <- (map_nth_seq eline (0%nat, 0%nat) (edges (w_mesh w))). apply map_ext. intros i.
+      destruct (nth i (edges (w_mesh w)) (0%nat, 0%nat)); reflexivity. }
+    rewrite EE.
+    assert (EF : map (fun f => entity_line (face_at (w_mesh w) f)) (seq 0 (nf (w_mesh w))) = map entity_line (faces (w_mesh w))).
+    { unfold nf, face_at. exact (map_nth_seq entity_line [] (faces (w_mesh w))). }
+    rewrite EF.
+    assert (EC : map (fun c => entity_line (cell_at (w_mesh w) c)) (seq 0 (nc (w_mesh w))) = map entity_line (cells (w_mesh w))).
+    { unfold nc, cell_at. exact (map_nth_seq entity_line [] (cells (w_mesh w))). }
+    rewrite EC.
+    unfold text_vertices, text_edges, text_faces, text_cells, nl, c_nl.
+    change (write_props print_d print_f []) with (@nil byte).
+    change (bs "OVM ASCII") with (join_sp [bs "OVM"; bs "ASCII"]).
+    repeat (first [rewrite <- app_assoc | progress cbn [app]]). reflexivity.
+  Qed.
+
+  Lemma read_keyword_tok_0 t r d : tokp t -> endsp r ->
+    read_keyword (st (t ++ r)) d = (mk r (is_nil r) false, with_stmp d (upper t)).
+  Proof. intros. unfold read_keyword. rewrite get_word_tok_0; auto. Qed.
+  Lemma read_keyword_tok_sp t r d : tokp t -> endsp r ->
+    read_keyword (st (32 :: t ++ r)) d = (mk r (is_nil r) false, with_stmp d (upper t)).
+  Proof. intros. unfold read_keyword. rewrite get_word_tok_sp; auto. Qed.
+
+  Lemma alloc_go_small o n esz : 0 <= n <= 2147483648 -> (esz = 8 \/ esz = 24) -> n * esz <= o_alloc o -> alloc o n esz = Go tt.
+  Proof.
+    intros Hn He Ha. unfold alloc.
+    assert (P1 : (n >? ptrdiff_max / esz) = false).
+    { destruct He as [->| ->]; [change (ptrdiff_max / 8) with 1152921504606846975 | change (ptrdiff_max / 24) with 384307168202282325]; lia. }
+    rewrite P1. assert (P2 : (n * esz >? o_alloc o) = false) by lia. rewrite P2. reflexivity.
+  Qed.
+
+  (* C06 (ASCII), topology and positions: what the writer prints for a mesh without pending deletions, the reader reads
+     back handle for handle; coordinates come back as reparse = parse o print *)
+  Theorem read_write_topo o w : wfw o w ->
+    exists f, read_ascii conv_d conv_f o (write_ascii print_d print_f w) = RTrue f /\
+      topo (f_mesh f) = topo (w_mesh w) /\ f_props f = [pos_entry (map rp3 (w_pos w))] /\ f_is f = mk [] true true.
+  Proof.
+    intros W. rewrite (write_ascii_shape o w W). unfold read_ascii, read_stream.
+    set (m0 := enable_fbu false (enable_ebu false (enable_vbu false (clear_mesh false empty_mesh)))).
+    assert (T0 : topo m0 = (0%nat, [], [], [])) by reflexivity. apply topo_inv in T0. destruct T0 as (T0a & T0b & T0c & T0d).
+    set (m := w_mesh w) in *.
+    destruct (wf_nv o w W) as [Nv1 Nv2]. destruct (wf_ne o w W) as [Ne1 Ne2]. destruct (wf_nf o w W) as [Nf1 Nf2]. destruct (wf_nc o w W) as [Nc1 Nc2].
+    fold m in Nv1, Nv2, Ne1, Ne2, Nf1, Nf2, Nc1, Nc2.
+    (* header *)
+    assert (TkO : tokp (bs "OVM")) by tok_closed. assert (TkA : tokp (bs "ASCII")) by tok_closed.
+    rewrite (gcl_at _ (join_sp [bs "OVM"; bs "ASCII"]) (text_vertices w)); [|apply clean_join; [exact TkO|constructor; [exact TkA|constructor]|discriminate]|reflexivity].
+    cbn [bind with_line d_line]. unfold sstr_of at 1, of_bytes at 1.
+    change (mk (join_sp [bs "OVM"; bs "ASCII"]) false false) with (st (bs "OVM" ++ 32 :: bs "ASCII" ++ [])).
+    rewrite read_keyword_tok_0; [|auto|right; eexists; reflexivity]. cbn [is_nil].
+    fold (st (32 :: bs "ASCII" ++ [])). rewrite read_keyword_tok_sp; [|auto|left; reflexivity].
+    cbn [with_stmp d_stmp].
+    change (bytes_eqb (upper (bs "ASCII")) (bs "BINARY")) with false. cbn iota.
+    change (bytes_eqb (upper (bs "OVM")) (bs "OVM")) with true. cbn iota.
+    (* Vertices *)
+    assert (TkV : tokp (bs "Vertices")) by tok_closed.
+    unfold text_vertices.
+    erewrite (gcl_at _ (bs "Vertices")); [|apply clean_tok; [auto|discriminate]|cbn [d_is with_stmp with_line]; reflexivity].
+    cbn [bind with_line d_line]. unfold sstr_of at 1, of_bytes at 1.
+    change (mk (bs "Vertices") false false) with (st (bs "Vertices" ++ [])).
+    rewrite read_keyword_tok_0; [|auto|left; reflexivity].
+    cbn [with_stmp d_stmp].
+    change (bytes_eqb (upper (bs "Vertices")) (bs "VERTICES")) with true. cbn [negb]. cbn iota.
+    erewrite (read_count_at _ (nv m)); [|unfold pow2; lia|cbn [d_is with_stmp with_line]; reflexivity]. cbn [bind].
+    rewrite (alloc_go_small o (Z.of_nat (nv m)) 24); [|lia|auto|auto]. cbn [bind].
+    rewrite Nat2Z.id. fold m.
+    match goal with |- context [vertex_loop conv_d _ ?d] =>
+      destruct (vertex_loop_print (w_pos w) d (text_edges m) (wf_pos_ok o w W) eq_refl) as (d7 & E7 & S7 & V7a & V7b & V7c & V7d & V7p & V7s) end.
+    rewrite (wf_pos_len o w W) in E7, V7a. fold m in E7, V7a.
+    rewrite E7. cbn [bind]. cbn [d_m d_pos with_stmp with_line] in V7a, V7b, V7c, V7d, V7p, V7s.
+    (* Edges *)
+    assert (TkE : tokp (bs "Edges")) by tok_closed.
+    unfold text_edges in S7.
+    rewrite (section_header_at "Edges" "EDGES" d7 _ TkE ltac:(discriminate) eq_refl S7). cbn [bind].
+    erewrite (read_count_at _ (ne m)); [|unfold pow2; lia|cbn [d_is with_stmp with_line]; reflexivity]. cbn [bind].
+    rewrite (alloc_go_small o (Z.of_nat (ne m)) 8); [|lia|auto|auto]. cbn [bind].
+    rewrite Nat2Z.id. unfold ne at 1.
+    match goal with |- context [edge_loop _ ?nvd ?d] =>
+      destruct (edge_loop_print nvd (edges m) d (text_faces m)) as (d10 & E10 & S10 & V10a & V10b & V10c & V10d & V10p & V10s) end.
+    { exact (wf_edges o w W). }
+    { lia. }
+    { reflexivity. }
+    rewrite E10. cbn [bind]. cbn [d_m d_pos with_stmp with_line] in V10a, V10b, V10c, V10d, V10p, V10s.
+    (* Faces *)
+    assert (TkF : tokp (bs "Faces")) by tok_closed.
+    unfold text_faces in S10.
+    rewrite (section_header_at "Faces" "FACES" d10 _ TkF ltac:(discriminate) eq_refl S10). cbn [bind].
+    erewrite (read_count_at _ (nf m)); [|unfold pow2; lia|cbn [d_is with_stmp with_line]; reflexivity]. cbn [bind].
+    rewrite (alloc_go_small o (Z.of_nat (nf m)) 24); [|lia|auto|auto]. cbn [bind].
+    rewrite Nat2Z.id. unfold nf at 1.
+    assert (W2e : wrap64 (2 * Z.of_nat (ne m)) = Z.of_nat (2 * ne m)) by (rewrite wrap64_small; lia).
+    rewrite W2e.
+    match goal with |- context [face_loop _ o ?nhe ?d] =>
+      destruct (face_loop_print o nhe (wf_poly o w W) (wf_nocheck o w W) Ne1 (faces m) d (text_cells m) (wf_faces o w W) eq_refl)
+        as (d13 & E13 & S13 & V13a & V13b & V13c & V13d & V13p & V13s) end.
+    rewrite E13. cbn [bind]. cbn [d_m d_pos with_stmp with_line] in V13a, V13b, V13c, V13d, V13p, V13s.
+    (* Polyhedra *)
+    assert (TkC : tokp (bs "Polyhedra")) by tok_closed.
+    unfold text_cells in S13.
+    rewrite (section_header_at "Polyhedra" "POLYHEDRA" d13 _ TkC ltac:(discriminate) eq_refl S13). cbn [bind].
+    erewrite (read_count_at _ (nc m)); [|unfold pow2; lia|cbn [d_is with_stmp with_line]; reflexivity]. cbn [bind].
+    rewrite (alloc_go_small o (Z.of_nat (nc m)) 24); [|lia|auto|auto]. cbn [bind].
+    rewrite Nat2Z.id. unfold nc at 1.
+    assert (W2f : wrap64 (2 * Z.of_nat (nf m)) = Z.of_nat (2 * nf m)) by (rewrite wrap64_small; lia).
+    rewrite W2f.
+    match goal with |- context [cell_loop _ o ?nhf ?d] =>
+      destruct (cell_loop_print o nhf (wf_poly o w W) (wf_nocheck o w W) Nf1 (cells m) d [] (wf_cells o w W) eq_refl)
+        as (d16 & E16 & S16 & V16a & V16b & V16c & V16d & V16p & V16s) end.
+    rewrite E16. cbn [bind]. cbn [d_m d_pos with_stmp with_line] in V16a, V16b, V16c, V16d, V16p, V16s.
+    (* the property loop on the empty rest *)
+    rewrite S16. unfold gcl_fuel. cbn [rest st mk length].
+    cbn [prop_loop good st mk eofb failb negb andb bind].
+    unfold read_property. unfold gcl_fuel. cbn [rest st mk length get_clean_line getline sentry good eofb failb negb andb take_line is_nil trim drop_trim rev_append].
+    cbn [bind prop_loop good mk eofb failb negb andb].
+    eexists. split; [reflexivity|]. cbn [f_mesh f_props f_is].
+    split; [|split; [|reflexivity]].
+    - set (mf := d_m d16) in *.
+      assert (Tm : topo mf = topo m).
+      { unfold topo. rewrite V16a, V16b, V16c, V16d, V13a, V13b, V13c, V13d, V10a, V10b, V10c, V10d, V7a, V7b, V7c, V7d, T0a, T0b, T0c, T0d.
+        reflexivity. }
+      destruct (o_bu o); [|exact Tm]. rewrite topo_enable_fbu, topo_enable_ebu, topo_enable_vbu. exact Tm.
+    - rewrite V16p, V13p, V10p, V7p. rewrite app_nil_r, rev_append_rev, app_nil_r, rev_involutive. reflexivity.
+  Qed.
+End RoundTrip.
+
+(* ================================================================== a mesh read from a file has no deleted entities *)
+
+Local Open Scope nat_scope.
+
+Definition nodel (m : mesh) : Prop :=
+  vdel m = repeat false (nv m) /\ edel m = repeat false (ne m) /\ fdel m = repeat false (nf m) /\ cdel m = repeat false (nc m).
+Definition dels (m : mesh) := (vdel m, edel m, fdel m, cdel m).
+
+Lemma repeat_snoc {A} (x : A) n : repeat x n ++ [x] = repeat x (S n).
+Proof. rewrite <- repeat_cons. reflexivity. Qed.
+
+Lemma nodel_eq m m' : topo m' = topo m -> dels m' = dels m -> nodel m -> nodel m'.
+Proof.
+  unfold topo, dels, nodel, ne, nf, nc. intros T D. inversion T as [[T1 T2 T3 T4]]. inversion D as [[D1 D2 D3 D4]].
+  rewrite T1, T2, T3, T4, D1, D2, D3, D4. auto.
+Qed.
+
+Lemma add_vertex_dels m : let '(m1, _) := add_vertex m in
+  vdel m1 = vdel m ++ [false] /\ edel m1 = edel m /\ fdel m1 = fdel m /\ cdel m1 = cdel m.
+Proof. unfold add_vertex. rs. destruct (vbu m); rs; repeat split; reflexivity. Qed.
+
+Lemma nodel_add_vertex m : nodel m -> nodel (fst (add_vertex m)).
+Proof.
+  pose proof (add_vertex_topo m) as T. pose proof (add_vertex_dels m) as D. destruct (add_vertex m) as [m1 v].
+  destruct T as (T1 & T2 & T3 & T4). destruct D as (D1 & D2 & D3 & D4). simpl. unfold nodel, ne, nf, nc.
+  rewrite T1, T2, T3, T4, D1, D2, D3, D4. intros (A & B & C & E). rewrite A. repeat split; auto. apply repeat_snoc.
+Qed.
+
+Lemma nodel_add_edge_dup m a b : nodel m -> nodel (fst (add_edge m a b true)).
+Proof.
+  unfold add_edge. pose proof (append_edge_effect m a b) as E. destruct (append_edge m a b) as [m1 e]. simpl.
+  destruct E as (_ & E2 & E3 & T & _). unfold topo_eq_except_edges in T. destruct T as (T1 & T2 & T3 & T4 & T5 & T6 & _).
+  unfold nodel, ne, nf, nc. rewrite T1, E2, T2, T3, T4, E3, T5, T6. intros (A & B & C & D). rewrite B, app_length. simpl.
+  repeat split; auto. rewrite Nat.add_1_r. apply repeat_snoc.
+Qed.
+
+Lemma nodel_add_face_some m hes chk m1 f : add_face m hes chk = (m1, Some f) -> nodel m -> nodel m1.
+Proof.
+  unfold add_face. destruct (chk && negb (loop_ok m hes)); [discriminate|].
+  pose proof (append_face_effect m hes) as E. destruct (append_face m hes) as [m2 f2].
+  intros H; inversion H; subst. destruct E as (_ & E2 & E3 & E4 & E5 & E6 & E7 & E8 & E9 & _).
+  unfold nodel, ne, nf, nc. rewrite E2, E3, E4, E5, E6, E7, E8, E9. intros (A & B & C & D). rewrite C, app_length. simpl.
+  repeat split; auto. rewrite Nat.add_1_r. apply repeat_snoc.
+Qed.
+
+Lemma nodel_add_cell_some m hfs chk m1 c : add_cell m hfs chk = (m1, Some c) -> nodel m -> nodel m1.
+Proof.
+  unfold add_cell. destruct (chk && negb (cell_check m hfs)); [discriminate|].
+  pose proof (append_cell_effect m hfs) as E. destruct (append_cell m hfs) as [m2 c2].
+  intros H; inversion H; subst. destruct E as (_ & E2 & E3 & E4 & E5 & E6 & E7 & E8 & E9 & _).
+  unfold nodel, ne, nf, nc. rewrite E2, E3, E4, E5, E6, E7, E8, E9. intros (A & B & C & D). rewrite D, app_length. simpl.
+  repeat split; auto. rewrite Nat.add_1_r. apply repeat_snoc.
+Qed.
+
+Lemma nodel_m_add_face o m hes m1 f : m_add_face o m hes = (m1, Some f) -> nodel m -> nodel m1.
+Proof.
+  unfold m_add_face, tet_add_face, hex_add_face. destruct (o_mesh o).
+  - apply nodel_add_face_some.
+  - destruct (negb (length hes =? 3)); [discriminate|]. apply nodel_add_face_some.
+  - destruct (negb (length hes =? 4)); [discriminate|]. apply nodel_add_face_some.
+Qed.
+
+Lemma nodel_m_add_cell o m hfs m1 c : m_add_cell o m hfs = (m1, Some c) -> nodel m -> nodel m1.
+Proof.
+  unfold m_add_cell, tet_add_cell, hex_add_cell. destruct (o_mesh o).
+  - apply nodel_add_cell_some.
+  - destruct (negb (length hfs =? 4)); [discriminate|].
+    destruct (negb (forallb _ hfs)); [discriminate|].
+    destruct (o_check o && negb _); [discriminate|]. apply nodel_add_cell_some.
+  - destruct (negb (length hfs =? 6)); [discriminate|].
+    destruct (negb (forallb _ hfs)); [discriminate|].
+    destruct (negb (o_check o)); [apply nodel_add_cell_some|].
+    destruct (check_halfface_ordering m hfs); [apply nodel_add_cell_some|].
+    destruct (reorder_bottom m hfs) as [b|]; [|discriminate].
+    destruct (all_some (upd 1 (Some b) (reorder_top m hfs))) as [l|]; [|discriminate].
+    destruct (check_halfface_ordering m l); [|discriminate]. apply nodel_add_cell_some.
+Qed.
+
+Lemma dels_enable_vbu b m : dels (enable_vbu b m) = dels m.
+Proof. unfold enable_vbu. destruct (b && negb (vbu m)); destruct (negb b); reflexivity. Qed.
+
+Lemma dels_reorder_edges es m : dels (reorder_edges es m) = dels m.
+Proof. pose proof (reorder_edges_frame es m) as F. simpl in F. destruct F as (_&_&_&_&A&B&C&D&_). unfold dels. congruence. Qed.
+
+Lemma dels_enable_ebu b m : dels (enable_ebu b m) = dels m.
+Proof.
+  unfold enable_ebu. destruct (b && negb (ebu m)).
+  - rs. destruct (fbu m); destruct (negb b); rs; unfold dels; rs; try reflexivity;
+      match goal with |- context [reorder_edges ?e ?x] => pose proof (dels_reorder_edges e x) as T; unfold dels in T; inversion T as [[T1 T2 T3 T4]]; rewrite ?T1, ?T2, ?T3, ?T4; reflexivity end.
+  - destruct (negb b); reflexivity.
+Qed.
+
+Lemma dels_enable_fbu b m : dels (enable_fbu b m) = dels m.
+Proof.
+  unfold enable_fbu. destruct (b && negb (fbu m)); cbn [andb].
+  - destruct (negb b); rs;
+      match goal with
+      | |- context [if ?c then _ else _] => destruct c
+      end; try reflexivity;
+      match goal with |- dels (reorder_edges ?e ?x) = _ => rewrite (dels_reorder_edges e x); reflexivity end.
+  - destruct (negb b); reflexivity.
+Qed.
+
+Section NoDel.
+  Variable conv_d : list byte -> Z * bool.
+  Variable conv_f : list byte -> Z * bool.
+
+  Lemma vertex_loop_nodel n : forall d d', vertex_loop conv_d n d = Go d' -> nodel (d_m d) -> nodel (d_m d').
+  Proof.
+    induction n; intros d d' H I.
+    - simpl in H. inversion H; subst; auto.
+    - cbn [vertex_loop] in H. apply bind_go in H. destruct H as (d1 & G & H). apply gcl_keeps in G. destruct G as [G1 G2].
+      repeat match type of H with context [get_float ?c ?s] => destruct (get_float c s) end.
+      destruct (d_v d1) as [[vx vy] vz]. pose proof (nodel_add_vertex (d_m d1)) as V.
+      destruct (add_vertex (d_m d1)) as [m1 vh]. simpl in V. apply IHn in H; auto. cbn [d_m]. apply V. rewrite G1. exact I.
+  Qed.
+
+  Lemma edge_loop_nodel n nvd : forall d d', edge_loop n nvd d = Go d' -> nodel (d_m d) -> nodel (d_m d').
+  Proof.
+    induction n; intros d d' H I.
+    - simpl in H. inversion H; subst; auto.
+    - cbn [edge_loop] in H. apply bind_go in H. destruct H as (d1 & G & H). apply gcl_keeps in G. destruct G as [G1 G2].
+      destruct (get_num NU32 (sstr_of (d_line d1))) as [ss1 a]. destruct (get_num NU32 ss1) as [ss2 b].
+      destruct ((valz a 0 >=? nvd)%Z || (valz b 0 >=? nvd)%Z); [discriminate|].
+      destruct ((valz a 0 >? int_max_z)%Z || (valz b 0 >? int_max_z)%Z); [discriminate|].
+      pose proof (nodel_add_edge_dup (d_m d1) (Z.to_nat (valz a 0)) (Z.to_nat (valz b 0))) as V.
+      destruct (add_edge (d_m d1) (Z.to_nat (valz a 0)) (Z.to_nat (valz b 0)) true) as [m1 e]. simpl in V.
+      apply IHn in H; auto. cbn [d_m with_mesh]. apply V. rewrite G1. exact I.
+  Qed.
+
+  Lemma face_loop_nodel n o nhe : forall d d', face_loop n o nhe d = Go d' -> nodel (d_m d) -> nodel (d_m d').
+  Proof.
+    induction n; intros d d' H I.
+    - simpl in H. inversion H; subst; auto.
+    - cbn [face_loop] in H. apply bind_go in H. destruct H as (d1 & G & H). apply gcl_keeps in G. destruct G as [G1 G2].
+      apply bind_go in H. destruct H as (hes & R & H).
+      destruct (m_add_face o (d_m d1) hes) as [m1 [f|]] eqn:M; [|discriminate].
+      apply IHn in H; auto. cbn [d_m with_mesh]. eapply nodel_m_add_face; eauto. rewrite G1. exact I.
+  Qed.
+
+  Lemma cell_loop_nodel n o nhf : forall d d', cell_loop n o nhf d = Go d' -> nodel (d_m d) -> nodel (d_m d').
+  Proof.
+    induction n; intros d d' H I.
+    - simpl in H. inversion H; subst; auto.
+    - cbn [cell_loop] in H. apply bind_go in H. destruct H as (d1 & G & H). apply gcl_keeps in G. destruct G as [G1 G2].
+      apply bind_go in H. destruct H as (hfs & R & H).
+      destruct (m_add_cell o (d_m d1) hfs) as [m1 [c|]] eqn:M; [|discriminate].
+      apply IHn in H; auto. cbn [d_m with_mesh]. eapply nodel_m_add_cell; eauto. rewrite G1. exact I.
+  Qed.
+
+  Theorem read_stream_nodel o s0 f : read_stream conv_d conv_f o s0 = RTrue f -> nodel (f_mesh f).
+  Proof.
+    unfold read_stream.
+    match goal with |- match ?r with Stop st => _ | Go d => _ end = _ -> _ => set (R := r) end.
+    assert (HR : forall d, R = Go d -> nodel (d_m d)).
+    { unfold R. clear R. intros d H.
+      apply bind_go in H. destruct H as (d1 & G1 & H). apply gcl_keeps in G1. cbn [d_m d_pos] in G1.
+      destruct (read_keyword (sstr_of (d_line d1)) d1) as [ss1 d2] eqn:K2. apply read_keyword_keeps in K2.
+      destruct (read_keyword ss1 d2) as [ss2 d3] eqn:K3. apply read_keyword_keeps in K3.
+      destruct (bytes_eqb (d_stmp d3) (bs "BINARY")); [discriminate|].
+      apply bind_go in H. destruct H as (d4 & G4 & H).
+      assert (K4 : d_m d4 = d_m d3 /\ d_pos d4 = d_pos d3).
+      { destruct (bytes_eqb (d_stmp d2) (bs "OVM")); [apply gcl_keeps; auto | inversion G4; auto]. }
+      destruct (read_keyword (sstr_of (d_line d4)) d4) as [ss5 d5] eqn:K5. apply read_keyword_keeps in K5.
+      destruct (negb (bytes_eqb (d_stmp d5) (bs "VERTICES"))); [discriminate|].
+      apply bind_go in H. destruct H as ([d6 nvd] & C6 & H). apply read_count_keeps in C6. destruct C6 as (M6 & P6 & Nv).
+      apply bind_go in H. destruct H as (_ & _ & H).
+      assert (I6 : nodel (d_m d6)).
+      { destruct G1, K2, K3, K4, K5. replace (d_m d6) with (d_m d1) by congruence. rewrite H0. repeat split; reflexivity. }
+      apply bind_go in H. destruct H as (d7 & V7 & H). apply vertex_loop_nodel in V7; auto.
+      apply bind_go in H. destruct H as (d8 & S8 & H). apply section_header_keeps in S8. destruct S8 as [M8 P8].
+      apply bind_go in H. destruct H as ([d9 ned] & C9 & H). apply read_count_keeps in C9. destruct C9 as (M9 & P9 & Ne).
+      apply bind_go in H. destruct H as (_ & _ & H).
+      apply bind_go in H. destruct H as (d10 & L10 & H). apply edge_loop_nodel in L10; [|rewrite M9, M8; auto].
+      apply bind_go in H. destruct H as (d11 & S11 & H). apply section_header_keeps in S11. destruct S11 as [M11 P11].
+      apply bind_go in H. destruct H as ([d12 nfd] & C12 & H). apply read_count_keeps in C12. destruct C12 as (M12 & P12 & Nf).
+      apply bind_go in H. destruct H as (_ & _ & H).
+      apply bind_go in H. destruct H as (d13 & L13 & H). apply face_loop_nodel in L13; [|rewrite M12, M11; auto].
+      apply bind_go in H. destruct H as (d14 & S14 & H). apply section_header_keeps in S14. destruct S14 as [M14 P14].
+      apply bind_go in H. destruct H as ([d15 ncd] & C15 & H). apply read_count_keeps in C15. destruct C15 as (M15 & P15 & Nc).
+      apply bind_go in H. destruct H as (_ & _ & H).
+      apply bind_go in H. destruct H as (d16 & L16 & H). apply cell_loop_nodel in L16; [|rewrite M15, M14; auto].
+      inversion H; subst. exact L16. }
+    destruct R as [d|out] eqn:ER.
+    - specialize (HR d eq_refl).
+      destruct (prop_loop conv_d conv_f (gcl_fuel (d_is d)) o (d_m d) (d_is d) [pos_entry (rev_append (d_pos d) [])]) as [[s1 props]|out] eqn:P.
+      + destruct (negb (eofb s1)); [discriminate|].
+        intros H; inversion H; subst; clear H. cbn [f_mesh].
+        destruct (o_bu o); [|exact HR].
+        eapply nodel_eq; [| |exact HR].
+        * rewrite topo_enable_fbu, topo_enable_ebu, topo_enable_vbu. reflexivity.
+        * rewrite dels_enable_fbu, dels_enable_ebu, dels_enable_vbu. reflexivity.
+      + intros H. exfalso. eapply stop_not_true; eauto.
+    - intros H. exfalso. eapply stop_not_true; eauto.
+  Qed.
+End NoDel.
+
+(* ================================================================== the second round trip changes nothing *)
+
+Lemma filter_all {A} (p : A -> bool) l : (forall x, In x l -> p x = true) -> filter p l = l.
+Proof.
+  induction l; simpl; intros H; [reflexivity|]. rewrite (H a (or_introl eq_refl)). f_equal. apply IHl. intros x Hx. apply H. right; exact Hx.
+Qed.
+
+Lemma nth_repeat_false v n : nth v (repeat false n) false = false.
+Proof. revert v. induction n; intros v; destruct v; simpl; auto. Qed.
+
+Lemma live_of_nodel m : nodel m ->
+  live_vertices m = seq 0 (nv m) /\ live_edges m = seq 0 (ne m) /\ live_faces m = seq 0 (nf m) /\ live_cells m = seq 0 (nc m).
+Proof.
+  intros (A & B & C & D). unfold live_vertices, live_edges, live_faces, live_cells, v_deleted, e_deleted, f_deleted, c_deleted.
+  rewrite A, B, C, D. repeat split; apply filter_all; intros x _; rewrite nth_repeat_false; reflexivity.
+Qed.
+
+Section RoundTrip2.
+  Variable conv_d : list byte -> Z * bool.
+  Variable conv_f : list byte -> Z * bool.
+  Variable print_d : Z -> list byte.
+  Variable print_f : Z -> list byte.
+  Variable okf : Z -> Prop.
+  Hypothesis print_tok : forall b, okf b -> tokp (print_d b) /\ hd 0%Z (print_d b) <> 35%Z.
+  Hypothesis print_scan : forall b r, okf b -> endsp r -> float_scan (print_d b ++ r) = (print_d b, r).
+  Hypothesis print_conv : forall b, okf b -> snd (conv_d (print_d b)) = false.
+  (* a reparsed value is printable again, and - THE recorded assumption on the number printer / parser -
+     parse (print (parse (print x))) = parse (print x) *)
+  Hypothesis okf_reparse : forall b, okf b -> okf (reparse conv_d print_d b).
+  Hypothesis reparse_idem : forall b, okf b -> reparse conv_d print_d (reparse conv_d print_d b) = reparse conv_d print_d b.
+
+  Definition rpt (p : Z * Z * Z) : Z * Z * Z :=
+    let '(x, y, z) := p in (reparse conv_d print_d x, reparse conv_d print_d y, reparse conv_d print_d z).
+
+  (* the mesh as the caller holds it after the first read: the mesh read, with the coordinates read *)
+  Definition reread (w : wmesh) (f : fin) : wmesh := {| w_mesh := f_mesh f; w_pos := map rpt (w_pos w); w_props := [] |}.
+
+  Lemma wfw_reread o w f : wfw okf o w -> read_ascii conv_d conv_f o (write_ascii print_d print_f w) = RTrue f ->
+    topo (f_mesh f) = topo (w_mesh w) -> wfw okf o (reread w f).
+  Proof.
+    intros W R T. pose proof (read_stream_nodel conv_d conv_f o _ f R) as N. apply live_of_nodel in N. destruct N as (L1 & L2 & L3 & L4).
+    unfold topo in T. inversion T as [[T1 T2 T3 T4]].
+    destruct W. constructor; unfold reread; cbn [w_mesh w_pos w_props]; auto; unfold ne, nf, nc in *; rewrite ?T1, ?T2, ?T3, ?T4; auto.
+    - rewrite map_length. auto.
+    - clear - wf_pos_ok0 okf_reparse. induction wf_pos_ok0 as [|[[x y] z] l H]; simpl; constructor; auto.
+      unfold okp in *. destruct H as (A & B & C). auto.
+  Qed.
+
+  Lemma rp3_rpt p : okp okf p -> rp3 conv_d print_d (rpt p) = rp3 conv_d print_d p.
+  Proof. destruct p as [[x y] z]. intros (A & B & C). unfold rp3, rpt. rewrite !reparse_idem; auto. Qed.
+
+  Theorem read_write_twice o w : wfw okf o w ->
+    exists f1 f2,
+      read_ascii conv_d conv_f o (write_ascii print_d print_f w) = RTrue f1 /\
+      read_ascii conv_d conv_f o (write_ascii print_d print_f (reread w f1)) = RTrue f2 /\
+      topo (f_mesh f1) = topo (w_mesh w) /\ f_props f1 = [pos_entry (map (rp3 conv_d print_d) (w_pos w))] /\
+      topo (f_mesh f2) = topo (f_mesh f1) /\ f_props f2 = f_props f1.
+  Proof.
+    intros W. destruct (read_write_topo conv_d conv_f print_d print_f okf print_tok print_scan print_conv o w W) as (f1 & R1 & T1 & P1 & _).
+    pose proof (wfw_reread o w f1 W R1 T1) as W2.
+    destruct (read_write_topo conv_d conv_f print_d print_f okf print_tok print_scan print_conv o (reread w f1) W2) as (f2 & R2 & T2 & P2 & _).
+    exists f1, f2. repeat split; auto. rewrite P2, P1. unfold reread; cbn [w_pos]. f_equal. f_equal. rewrite map_map.
+    apply map_ext_in. intros p Hp. apply rp3_rpt. pose proof (wf_pos_ok okf o w W) as K. rewrite Forall_forall in K. auto.
+  Qed.
+End RoundTrip2.
